@@ -18,12 +18,12 @@ import (
 func init() {
 	register(&Property{
 		ID: "C18",
-		Explain: "Static necessary conditions for 'heur.SEE(b, m, t) answers whether the minimax over least-valuable-attacker capture sequences on the target square is >= t', decided on a model of the swap loop built from SSA (loop-header phis, test chain, back edges), never from text. " +
+		Explain: "Static necessary conditions for 'heur.SEE(b, m, t) answers whether the minimax over least-valuable-attacker capture sequences on the target square is >= t', decided on a model of the swap loop built from SSA (loop-header phis, test chain, back edges), never from text; all matching is on normalised expressions (conversions dropped, &^ = & ^, swapped/negated comparisons, commutative operands sorted) in which calls of single-block pure chess-3 helpers are replaced by what they return, so helper extraction, hoisting and De Morgan rewrites do not change a verdict. " +
 			"R1: every attack pattern in SEE is intersected with exactly the piece kinds that move that way, pawn attackers use the opposite colour's capture pattern, and the initial attacker set covers both pawn colours, knight, both slider kinds and king. " +
 			"R2: a must-dataflow over one loop iteration shows that a kind is tested only when every strictly cheaper kind (PieceValues read from the literal) is exhausted for the side to move, either by a failed test in this iteration or by a `start` marker value that is stored only where that exhaustion holds and only encodes kinds whose attacker set cannot grow by x-ray; Pawn..Queen are all tested; the king is decided last through `attackers & occ &^ Colors[stm]`; a back edge without capture is dead. " +
 			"R3: each capture branch subtracts a value equal to PieceValues of the tested kind from the running balance, removes exactly the lowest bit of the tested set from the occupancy, leaves early iff balance < parity (0 for the defender's turn, 1 for the attacker's) returning the parity's verdict; parity flips once per capture. " +
 			"R4: after a Pawn/Bishop/Queen capture diagonal sliders, after a Rook/Queen capture orthogonal sliders are re-read from the target square with the updated occupancy and or-ed to the carried set; every selection and the king test mask the attacker set with the current occupancy. " +
-			"R5: the mover leaves the occupancy before the first attacker computation, an en-passant victim leaves it at CaptureSq, gain = PieceValues[piece on CaptureSq] + promoVal - threshold, risk = PieceValues[mover] + promoVal - gain with promoVal = PieceValues[promo]-PieceValues[Pawn] only for promotions; the first reply is by the opponent and sides alternate. " +
+			"R5: the mover leaves the occupancy before the first attacker computation, an en-passant victim leaves it at CaptureSq; SEE returns false before the loop iff PieceValues[piece on CaptureSq] + promoVal - threshold < 0 and true iff PieceValues[mover] - PieceValues[captured] + threshold <= 0 (the loop needs a positive balance on entry), the balance entering the loop is that same risk-minus-gain term, promoVal = PieceValues[promo]-PieceValues[Pawn] only for promotions; the first reply is by the opponent and sides alternate. " +
 			"R6: RankNoisy's SEE threshold is provably <= 0 (constant or min(0, …)) and every test in quiescence that drops a move on its Weight alone splits at a bound <= heur.Captures, so no capture SEE judged good is pruned by rank. " +
 			"A departure is reported as a violation only when every part of the loop it depends on was understood; otherwise (helper extraction, other marker representation, unknown branch in the chain) the verdict is 'undecided'. " +
 			"Not decided: equality with the minimax for concrete positions, pins, promotions inside the exchange, monotonicity in the threshold, the sign bands of RankNoisy's return (C16).",
@@ -37,18 +37,367 @@ func runC18(c *Ctx) {
 	if p == nil {
 		return
 	}
-	n1 := pa1(c, p, "C18.R1.PA1", inFuncs("heur.SEE"))
-	c.Floor("C18.R1.PA1", n1, 11, "attack-pattern ∩ piece-set sites in SEE (6 initial, 5 x-ray refreshes)")
-	n4 := pa4(c, p, "C18.R1.PA4", inFuncs("heur.SEE"))
-	c.Floor("C18.R1.PA4", n4, 2, "reverse pawn-capture lookups in SEE")
-	if m := c18Build(c, p); m != nil {
-		m.r1init(c)
-		m.r2(c)
-		m.r3(c)
-		m.r4(c)
-		m.r5(c)
+	see := p.Func("heur.SEE")
+	if see == nil {
+		c.Anchor("C18.model", "heur.SEE")
+	} else {
+		// pairing sites are looked for in SEE and in every chess-3 function it (transitively) calls,
+		// so that slider lookups moved into helpers still count and are still checked
+		in := map[*ssa.Function]bool{}
+		for _, f := range p.closure([]*ssa.Function{see}, nil) {
+			in[f] = true
+		}
+		scope := func(fn *ssa.Function) bool { return in[fn] }
+		n1 := pa1(c, p, "C18.R1.PA1", scope)
+		c.Floor("C18.R1.PA1", n1, 5, "attack-pattern ∩ piece-set sites reachable from SEE (one per pattern kind is the minimum; 11 when nothing is shared)")
+		n4 := pa4(c, p, "C18.R1.PA4", scope)
+		c.Floor("C18.R1.PA4", n4, 1, "reverse pawn-capture lookups reachable from SEE")
+		if m := c18Build(c, p, see); m != nil {
+			m.r1init(c)
+			m.r2(c)
+			m.r3(c)
+			m.r4(c)
+			m.r5(c)
+		}
 	}
 	c18R6(c, p)
+}
+
+// ---------- expression view of SSA values ----------
+//
+// Every rule below matches on c18E trees, not on raw SSA: conversions are dropped, `x &^ y` is
+// `x & ^y`, `a > b` is `b < a`, `!(a < b)` is `b <= a`, loads are classified by what they load, and a
+// call to a single-block side-effect-free chess-3 function is replaced by the expression it returns with
+// parameters bound to the arguments (helper extraction and inlining look the same). Equality of
+// expressions is structural with commutative operands sorted.
+
+type c18E struct {
+	op, name string
+	a        []*c18E
+	k        int64
+	v        ssa.Value
+	ks       string
+}
+
+type c18Env struct{ bind map[*ssa.Parameter]*c18E }
+
+type c18MK struct {
+	v   ssa.Value
+	env *c18Env
+}
+
+type c18B struct {
+	memo  map[c18MK]*c18E
+	depth int
+}
+
+// calls that are the vocabulary of the rules and therefore never looked into
+var c18Atoms = map[string]bool{"move.(Move).From": true, "move.(Move).To": true, "move.(Move).Promo": true,
+	"board.(*Board).CaptureSq": true, "board.(*Board).IsEnPassant": true, "chess.(Color).Flip": true}
+
+func (b *c18B) e(v ssa.Value, env *c18Env) *c18E {
+	if v == nil {
+		return &c18E{op: "opaque"}
+	}
+	mk := c18MK{v, env}
+	if x, ok := b.memo[mk]; ok {
+		return x
+	}
+	x := b.build(v, env)
+	if x.v == nil {
+		x.v = v
+	}
+	b.memo[mk] = x
+	return x
+}
+
+// c18Inlinable: fn is one straight-line block of pure instructions returning one value.
+func c18Inlinable(fn *ssa.Function) *ssa.Return {
+	if fn == nil || !isOwn(fn) || len(fn.Blocks) != 1 || c18Atoms[fnName(fn)] || relPkg(fnPkgPath(fn)) == "attacks" {
+		return nil
+	}
+	for _, in := range fn.Blocks[0].Instrs {
+		switch x := in.(type) {
+		case *ssa.BinOp, *ssa.UnOp, *ssa.FieldAddr, *ssa.IndexAddr, *ssa.Convert, *ssa.ChangeType, *ssa.Call, *ssa.DebugRef, *ssa.Field, *ssa.Index:
+		case *ssa.Return:
+			if len(x.Results) == 1 {
+				return x
+			}
+			return nil
+		default:
+			return nil
+		}
+	}
+	return nil
+}
+
+func (b *c18B) build(v ssa.Value, env *c18Env) *c18E {
+	bin := func(op string, x, y ssa.Value) *c18E { return &c18E{op: op, a: []*c18E{b.e(x, env), b.e(y, env)}} }
+	un := func(op string, x *c18E) *c18E { return &c18E{op: op, a: []*c18E{x}} }
+	switch x := v.(type) {
+	case *ssa.Convert:
+		return b.e(x.X, env)
+	case *ssa.ChangeType:
+		return b.e(x.X, env)
+	case *ssa.Const:
+		if k, ok := constOf(x); ok {
+			return &c18E{op: "const", k: k}
+		}
+	case *ssa.Parameter:
+		if env != nil {
+			if y, ok := env.bind[x]; ok {
+				return y
+			}
+		}
+		return &c18E{op: "param"}
+	case *ssa.Phi:
+		return &c18E{op: "phi"}
+	case *ssa.BinOp:
+		switch x.Op {
+		case token.AND:
+			return bin("and", x.X, x.Y)
+		case token.OR:
+			return bin("or", x.X, x.Y)
+		case token.XOR:
+			return bin("xor", x.X, x.Y)
+		case token.ADD:
+			return bin("add", x.X, x.Y)
+		case token.SUB:
+			return bin("sub", x.X, x.Y)
+		case token.SHL:
+			return bin("shl", x.X, x.Y)
+		case token.EQL:
+			return bin("eq", x.X, x.Y)
+		case token.NEQ:
+			return bin("ne", x.X, x.Y)
+		case token.LSS:
+			return bin("lt", x.X, x.Y)
+		case token.LEQ:
+			return bin("le", x.X, x.Y)
+		case token.GTR:
+			return bin("lt", x.Y, x.X)
+		case token.GEQ:
+			return bin("le", x.Y, x.X)
+		case token.AND_NOT:
+			n := un("not", b.e(x.Y, env))
+			n.v = x
+			return &c18E{op: "and", a: []*c18E{b.e(x.X, env), n}}
+		}
+	case *ssa.UnOp:
+		switch x.Op {
+		case token.XOR:
+			return un("not", b.e(x.X, env))
+		case token.SUB:
+			return un("neg", b.e(x.X, env))
+		case token.NOT:
+			y := b.e(x.X, env)
+			switch y.op {
+			case "lt":
+				return &c18E{op: "le", a: []*c18E{y.a[1], y.a[0]}}
+			case "le":
+				return &c18E{op: "lt", a: []*c18E{y.a[1], y.a[0]}}
+			case "eq":
+				return &c18E{op: "ne", a: y.a}
+			case "ne":
+				return &c18E{op: "eq", a: y.a}
+			}
+			return un("lnot", y)
+		case token.MUL:
+			return b.load(x, env)
+		}
+	case *ssa.Call:
+		var args []*c18E
+		for _, a := range x.Call.Args {
+			args = append(args, b.e(a, env))
+		}
+		if bi, ok := x.Call.Value.(*ssa.Builtin); ok {
+			return &c18E{op: "call", name: "builtin." + bi.Name(), a: args}
+		}
+		callee := x.Call.StaticCallee()
+		if callee == nil || x.Call.IsInvoke() {
+			return &c18E{op: "opaque"}
+		}
+		if ret := c18Inlinable(callee); ret != nil && b.depth < 6 && len(callee.Params) == len(args) {
+			ne := &c18Env{bind: map[*ssa.Parameter]*c18E{}}
+			for i, pr := range callee.Params {
+				ne.bind[pr] = args[i]
+			}
+			b.depth++
+			r := b.e(ret.Results[0], ne)
+			b.depth--
+			return r
+		}
+		return &c18E{op: "call", name: fnName(callee), a: args}
+	}
+	return &c18E{op: "opaque"}
+}
+
+// load classifies *addr by what is loaded.
+func (b *c18B) load(u *ssa.UnOp, env *c18Env) *c18E {
+	switch ad := u.X.(type) {
+	case *ssa.IndexAddr:
+		idx := []*c18E{b.e(ad.Index, env)}
+		switch base := ad.X.(type) {
+		case *ssa.Global:
+			return &c18E{op: "glob", name: globalName(base), a: idx}
+		case *ssa.Alloc:
+			return &c18E{op: "elem", a: idx, v: base}
+		}
+		if fr, ok := asFieldAddr(ad.X); ok {
+			switch fr.Name() {
+			case "Board.Pieces":
+				return &c18E{op: "pieces", a: idx}
+			case "Board.Colors":
+				return &c18E{op: "colors", a: idx}
+			case "Board.SquaresToPiece":
+				return &c18E{op: "stp", a: idx}
+			}
+			return &c18E{op: "fieldelem", name: fr.QName(), a: idx}
+		}
+	case *ssa.FieldAddr:
+		if fr, ok := asFieldAddr(ad); ok {
+			return &c18E{op: "field", name: fr.Name()}
+		}
+	}
+	return &c18E{op: "opaque"}
+}
+
+func c18ValName(v ssa.Value) string {
+	if v == nil {
+		return "?"
+	}
+	if f := v.Parent(); f != nil {
+		return v.Name() + "@" + f.Name()
+	}
+	return v.Name()
+}
+
+var c18Assoc = map[string]bool{"and": true, "or": true, "xor": true, "add": true}
+
+// leaves flattens nested applications of the associative operator op.
+func (e *c18E) leaves(op string, out *[]*c18E) {
+	if e.op == op && c18Assoc[op] {
+		for _, a := range e.a {
+			a.leaves(op, out)
+		}
+		return
+	}
+	*out = append(*out, e)
+}
+
+func (e *c18E) key() string {
+	if e.ks != "" {
+		return e.ks
+	}
+	var parts []string
+	switch {
+	case e.op == "const":
+		e.ks = fmt.Sprintf("#%d", e.k)
+		return e.ks
+	case e.op == "param" || e.op == "phi" || e.op == "opaque":
+		e.ks = e.op + ":" + c18ValName(e.v)
+		return e.ks
+	case c18Assoc[e.op]:
+		var ls []*c18E
+		e.leaves(e.op, &ls)
+		seen := map[string]bool{}
+		for _, l := range ls {
+			if k := l.key(); !seen[k] || (e.op != "and" && e.op != "or") { // x&x = x, x|x = x
+				parts = append(parts, k)
+				seen[k] = true
+			}
+		}
+		sort.Strings(parts)
+	default:
+		for _, a := range e.a {
+			parts = append(parts, a.key())
+		}
+		if e.op == "eq" || e.op == "ne" {
+			sort.Strings(parts)
+		}
+	}
+	nm := e.name
+	if e.op == "elem" {
+		nm = c18ValName(e.v)
+	}
+	e.ks = e.op + ":" + nm + "(" + strings.Join(parts, ",") + ")"
+	return e.ks
+}
+
+func c18Same(a, b *c18E) bool { return a != nil && b != nil && (a == b || a.key() == b.key()) }
+
+func (e *c18E) isConst(k int64) bool { return e.op == "const" && e.k == k }
+
+func (e *c18E) pos() token.Pos {
+	if e.v != nil && e.v.Pos().IsValid() {
+		return e.v.Pos()
+	}
+	for _, a := range e.a {
+		if p := a.pos(); p.IsValid() {
+			return p
+		}
+	}
+	return token.NoPos
+}
+
+// andLeaves flattens an &-tree into positive and complemented conjuncts.
+func (e *c18E) andLeaves() (pos, neg []*c18E) {
+	var ls []*c18E
+	e.leaves("and", &ls)
+	for _, l := range ls {
+		if l.op == "not" {
+			neg = append(neg, l.a[0])
+		} else {
+			pos = append(pos, l)
+		}
+	}
+	return
+}
+
+func (e *c18E) orLeaves() []*c18E {
+	var ls []*c18E
+	e.leaves("or", &ls)
+	return ls
+}
+
+func c18Keys(es []*c18E) string {
+	var s []string
+	seen := map[string]bool{}
+	for _, e := range es {
+		if !seen[e.key()] {
+			s = append(s, e.key())
+		}
+		seen[e.key()] = true
+	}
+	sort.Strings(s)
+	return strings.Join(s, ",")
+}
+
+// piecesKind: e is Board.Pieces[const].
+func (e *c18E) piecesKind() (int64, bool) {
+	if e.op == "pieces" && e.a[0].op == "const" {
+		return e.a[0].k, true
+	}
+	return 0, false
+}
+
+// pieceSet: e is an |-combination of Pieces[const] loads.
+func (e *c18E) pieceSet() bool {
+	for _, l := range e.orLeaves() {
+		if _, ok := l.piecesKind(); !ok {
+			return false
+		}
+	}
+	return true
+}
+
+// attackCall: e is a call of an attacks.* pattern function -> its kind (pa.go's table).
+func (e *c18E) attackCall() (string, bool) {
+	if e.op != "call" {
+		return "", false
+	}
+	F, ok := attackFns[e.name]
+	return F, ok
 }
 
 // ---------- model ----------
@@ -56,32 +405,34 @@ func runC18(c *Ctx) {
 type c18Test struct {
 	kind       int64
 	name       string
-	T          ssa.Value // tested set: stmAttackers & Pieces[kind]
-	rest       string    // canonical key of the other conjuncts
-	restV      []ssa.Value
+	T          *c18E   // tested set: stmAttackers & Pieces[kind]
+	rest       []*c18E // its other conjuncts
+	restKey    string
 	iff        *ssa.If
 	taken, els *ssa.BasicBlock
 	backs      []int // indices into H.Preds of back edges dominated by taken
 }
 
 type c18Model struct {
-	p            *Prog
-	fn           *ssa.Function
-	pB, pM, pThr *ssa.Parameter
-	pcs          map[int64]string
-	val          map[int64]int64 // piece kind -> PieceValues[kind]
-	H            *ssa.BasicBlock
-	entryIx      int
-	backIx       []int
-	stmV         ssa.Value // colour whose attackers are selected in this iteration
-	att, occ     *ssa.Phi
-	swap, res    *ssa.Phi
-	resNew       ssa.Value
-	resEntry     int64
-	tests        []*c18Test
-	oddTests     []*c18Test // tests whose non-piece conjuncts differ from the majority
-	promoNote    string
+	p                       *Prog
+	b                       *c18B
+	fn                      *ssa.Function
+	pB, pM, pThr            *ssa.Parameter
+	pcs                     map[int64]string
+	val                     map[int64]int64 // piece kind -> PieceValues[kind]
+	H                       *ssa.BasicBlock
+	entryIx                 int
+	backIx                  []int
+	stmE                    *c18E // colour whose attackers are selected in this iteration
+	att, occ, swap, res     *ssa.Phi
+	attE, occE, swapE, resE *c18E
+	resEntry                int64
+	tests, oddTests         []*c18Test
+	promoNote               string
+	phiSel                  map[*ssa.Phi]ssa.Value // phis resolved along the edge currently followed by retTable
 }
+
+func (m *c18Model) x(v ssa.Value) *c18E { return m.b.e(v, nil) }
 
 // c18Pos: a source position for an If (the SSA If itself carries none).
 func c18Pos(iff *ssa.If) token.Pos {
@@ -112,142 +463,68 @@ func c18Last(b *ssa.BasicBlock) ssa.Instruction {
 	return b.Instrs[len(b.Instrs)-1]
 }
 
-// c18AndLeaves flattens an &-tree (including &^ and & ^x) into positive and negated leaves.
-func c18AndLeaves(v ssa.Value, pos, neg *[]ssa.Value) {
-	v = stripConv(v)
-	if bo, ok := v.(*ssa.BinOp); ok {
-		switch bo.Op {
-		case token.AND:
-			c18AndLeaves(bo.X, pos, neg)
-			c18AndLeaves(bo.Y, pos, neg)
-			return
-		case token.AND_NOT:
-			c18AndLeaves(bo.X, pos, neg)
-			*neg = append(*neg, stripConv(bo.Y))
-			return
-		}
-	}
-	if u, ok := v.(*ssa.UnOp); ok && u.Op == token.XOR {
-		*neg = append(*neg, stripConv(u.X))
-		return
-	}
-	*pos = append(*pos, v)
-}
-
-func c18OrLeaves(v ssa.Value, out *[]ssa.Value) {
-	v = stripConv(v)
-	if bo, ok := v.(*ssa.BinOp); ok && bo.Op == token.OR {
-		c18OrLeaves(bo.X, out)
-		c18OrLeaves(bo.Y, out)
-		return
-	}
-	*out = append(*out, v)
-}
-
-// c18ColorsIdx: v is a load of Board.Colors[idx] -> idx.
-func c18ColorsIdx(v ssa.Value) (ssa.Value, bool) {
-	u, ok := stripConv(v).(*ssa.UnOp)
-	if !ok || u.Op != token.MUL {
-		return nil, false
-	}
-	ia, ok := u.X.(*ssa.IndexAddr)
-	if !ok {
-		return nil, false
-	}
-	fr, ok := asFieldAddr(ia.X)
-	if !ok || fr.Name() != "Board.Colors" {
-		return nil, false
-	}
-	return ia.Index, true
-}
-
-// c18ZeroTest: the If compares X with 0; returns X and the successors taken when X != 0 / X == 0.
-func c18ZeroTest(iff *ssa.If) (x ssa.Value, nz, z *ssa.BasicBlock, ok bool) {
-	bo, isb := iff.Cond.(*ssa.BinOp)
-	if !isb || (bo.Op != token.NEQ && bo.Op != token.EQL) {
+// zeroTest: the If compares X with 0; returns X and the successors taken when X != 0 / X == 0.
+func (m *c18Model) zeroTest(iff *ssa.If) (x *c18E, nz, z *ssa.BasicBlock, ok bool) {
+	ce := m.x(iff.Cond)
+	if (ce.op != "eq" && ce.op != "ne") || len(ce.a) != 2 {
 		return nil, nil, nil, false
 	}
-	var other ssa.Value
-	if k, isc := constOf(bo.Y); isc && k == 0 {
-		other = bo.X
-	} else if k, isc := constOf(bo.X); isc && k == 0 {
-		other = bo.Y
-	} else {
+	switch {
+	case ce.a[1].isConst(0):
+		x = ce.a[0]
+	case ce.a[0].isConst(0):
+		x = ce.a[1]
+	default:
 		return nil, nil, nil, false
 	}
 	b := iff.Block()
-	if bo.Op == token.NEQ {
-		return stripConv(other), b.Succs[0], b.Succs[1], true
+	if ce.op == "ne" {
+		return x, b.Succs[0], b.Succs[1], true
 	}
-	return stripConv(other), b.Succs[1], b.Succs[0], true
-}
-
-// c18Key: canonical name of a conjunct set (board loads by what they load, other values by SSA identity).
-func c18Key(vs []ssa.Value) string {
-	var s []string
-	for _, v := range vs {
-		s = append(s, c18Canon(v))
-	}
-	sort.Strings(s)
-	return strings.Join(s, ",")
-}
-
-func c18Canon(v ssa.Value) string {
-	v = stripConv(v)
-	if ix, ok := c18ColorsIdx(v); ok {
-		return "Colors[" + c18Canon(ix) + "]"
-	}
-	if u, ok := v.(*ssa.UnOp); ok && u.Op == token.MUL {
-		if ia, ok := u.X.(*ssa.IndexAddr); ok {
-			if fr, ok := asFieldAddr(ia.X); ok && fr.Name() == "Board.Pieces" {
-				if k, isc := constOf(ia.Index); isc {
-					return fmt.Sprintf("Pieces[%d]", k)
-				}
-			}
-		}
-	}
-	if k, ok := constOf(v); ok {
-		return fmt.Sprintf("#%d", k)
-	}
-	return v.Name()
-}
-
-// c18SetKey: canonical key of an &-tree.
-func c18SetKey(v ssa.Value) string {
-	var pos, neg []ssa.Value
-	c18AndLeaves(v, &pos, &neg)
-	return c18Key(pos) + "|^" + c18Key(neg)
+	return x, b.Succs[1], b.Succs[0], true
 }
 
 type c18Guard struct {
-	cond  ssa.Value
+	cond  *c18E
 	truth bool
 }
 
-// c18EdgeGuards: branch conditions known to hold when control flows along P -> B.
-func c18EdgeGuards(P, B *ssa.BasicBlock) []c18Guard {
+// edgeGuards: branch conditions known to hold when control flows along P -> B.
+func (b *c18B) edgeGuards(P, B *ssa.BasicBlock) []c18Guard {
 	var gs []c18Guard
 	for _, ce := range controllingConds(P) {
-		gs = append(gs, c18Guard{ce.Cond, ce.True})
+		gs = append(gs, c18Guard{b.e(ce.Cond, nil), ce.True})
 	}
 	if iff, ok := c18Last(P).(*ssa.If); ok && P.Succs[0] != P.Succs[1] {
 		if P.Succs[0] == B {
-			gs = append(gs, c18Guard{iff.Cond, true})
+			gs = append(gs, c18Guard{b.e(iff.Cond, nil), true})
 		} else if P.Succs[1] == B {
-			gs = append(gs, c18Guard{iff.Cond, false})
+			gs = append(gs, c18Guard{b.e(iff.Cond, nil), false})
 		}
 	}
 	return gs
 }
 
-func c18Build(c *Ctx, p *Prog) *c18Model {
-	const rule = "C18.model"
-	m := &c18Model{p: p, pcs: pieceConsts(p), val: map[int64]int64{}}
-	m.fn = p.Func("heur.SEE")
-	if m.fn == nil {
-		c.Anchor(rule, "heur.SEE")
-		return nil
+func (m *c18Model) edgeGuards(P, B *ssa.BasicBlock) []c18Guard { return m.b.edgeGuards(P, B) }
+
+// flipOf: e is the other colour of x, written x.Flip(), x ^ 1 or 1 - x.
+func c18FlipOf(e *c18E) (*c18E, bool) {
+	switch {
+	case e.op == "call" && e.name == "chess.(Color).Flip" && len(e.a) == 1:
+		return e.a[0], true
+	case e.op == "xor" && e.a[1].isConst(1):
+		return e.a[0], true
+	case e.op == "xor" && e.a[0].isConst(1):
+		return e.a[1], true
+	case e.op == "sub" && e.a[0].isConst(1):
+		return e.a[1], true
 	}
+	return nil, false
+}
+
+func c18Build(c *Ctx, p *Prog, see *ssa.Function) *c18Model {
+	const rule = "C18.model"
+	m := &c18Model{p: p, b: &c18B{memo: map[c18MK]*c18E{}}, fn: see, pcs: pieceConsts(p), val: map[int64]int64{}}
 	if len(m.fn.Params) != 3 {
 		c.Undec(rule, "heur.SEE#signature", m.fn.Pos(), "expected SEE(board, move, threshold)")
 		return nil
@@ -276,48 +553,44 @@ func c18Build(c *Ctx, p *Prog) *c18Model {
 		c.Undec(rule, "heur.PieceValues#writers", expr.Pos(), "PieceValues is written or escapes after initialisation (%v): the literal is not the value SEE reads", w)
 		return nil
 	}
+	if len(m.pcs) != 7 {
+		c.Anchor(rule, "chess piece constants NoPiece..King")
+		return nil
+	}
 	for k := range m.pcs {
 		if k >= 0 && int(k) < len(vals) {
 			m.val[k] = int64(vals[k])
 		}
 	}
-	if len(m.pcs) != 7 {
-		c.Anchor(rule, "chess piece constants NoPiece..King")
-		return nil
-	}
-	// capture tests
+	// capture tests: `rest & Pieces[K] != 0`
 	byRest := map[string][]*c18Test{}
-	restLeaves := map[string][]ssa.Value{}
 	for _, b := range m.fn.Blocks {
 		iff, ok := c18Last(b).(*ssa.If)
 		if !ok {
 			continue
 		}
-		x, nz, z, ok := c18ZeroTest(iff)
+		x, nz, z, ok := m.zeroTest(iff)
 		if !ok || nz == z {
 			continue
 		}
-		var pos, neg, rest []ssa.Value
-		c18AndLeaves(x, &pos, &neg)
+		pos, neg := x.andLeaves()
 		kind, nk := int64(-1), 0
+		var rest []*c18E
+		dup := map[string]bool{}
 		for _, lf := range pos {
-			if n, ok := piecesLoadKind(lf, m.pcs); ok {
-				for k, nm := range m.pcs {
-					if nm == n {
-						kind = k
-					}
-				}
+			if k, ok := lf.piecesKind(); ok {
+				kind = k
 				nk++
-			} else {
+			} else if !dup[lf.key()] {
 				rest = append(rest, lf)
+				dup[lf.key()] = true
 			}
 		}
-		if nk != 1 || len(neg) != 0 || len(rest) == 0 {
+		if nk != 1 || len(neg) != 0 || len(rest) == 0 || m.pcs[kind] == "" {
 			continue
 		}
-		t := &c18Test{kind: kind, name: m.pcs[kind], T: x, rest: c18Key(rest), restV: rest, iff: iff, taken: nz, els: z}
-		byRest[t.rest] = append(byRest[t.rest], t)
-		restLeaves[t.rest] = rest
+		t := &c18Test{kind: kind, name: m.pcs[kind], T: x, rest: rest, restKey: c18Keys(rest), iff: iff, taken: nz, els: z}
+		byRest[t.restKey] = append(byRest[t.restKey], t)
 	}
 	best := ""
 	for k, ts := range byRest {
@@ -337,20 +610,21 @@ func c18Build(c *Ctx, p *Prog) *c18Model {
 	}
 	// the selected set: attackers & occ & Colors[stm] with attackers, occ phis of one loop header
 	var phis []*ssa.Phi
-	var col []ssa.Value
-	for _, lf := range restLeaves[best] {
-		if ph, ok := lf.(*ssa.Phi); ok {
+	var col []*c18E
+	rest := m.tests[0].rest
+	for _, lf := range rest {
+		if ph, ok := lf.v.(*ssa.Phi); ok && lf.op == "phi" && ph.Parent() == m.fn {
 			phis = append(phis, ph)
-		} else if ix, ok := c18ColorsIdx(lf); ok {
-			col = append(col, ix)
+		} else if lf.op == "colors" {
+			col = append(col, lf.a[0])
 		}
 	}
 	at := c18Pos(m.tests[0].iff)
-	if len(restLeaves[best]) != 3 || len(phis) != 2 || len(col) != 1 || phis[0].Block() != phis[1].Block() {
-		c.Undec(rule, "heur.SEE#selection", at, "the tested attacker set is not `attackers(phi) & occ(phi) & Colors[stm]` (%d conjuncts, %d loop-carried, %d colour sets): `attackers &= occ` before the selection cannot be established", len(restLeaves[best]), len(phis), len(col))
+	if len(rest) != 3 || len(phis) != 2 || len(col) != 1 || phis[0].Block() != phis[1].Block() {
+		c.Undec(rule, "heur.SEE#selection", at, "the tested attacker set is not `attackers(phi) & occ(phi) & Colors[stm]` (%d conjuncts, %d loop-carried, %d colour sets): `attackers &= occ` before the selection cannot be established", len(rest), len(phis), len(col))
 		return nil
 	}
-	m.stmV = col[0]
+	m.stmE = col[0]
 	m.H = phis[0].Block()
 	m.entryIx = -1
 	for i, pr := range m.H.Preds {
@@ -378,8 +652,8 @@ func c18Build(c *Ctx, p *Prog) *c18Model {
 		}
 	}
 	// which phi is the occupancy: its entry value evaluates to "all pieces minus squares"
-	_, ok0 := m.occEval(phis[0].Edges[m.entryIx], 0)
-	_, ok1 := m.occEval(phis[1].Edges[m.entryIx], 0)
+	_, ok0 := m.occEval(m.x(phis[0].Edges[m.entryIx]), 0)
+	_, ok1 := m.occEval(m.x(phis[1].Edges[m.entryIx]), 0)
 	switch {
 	case ok0 && !ok1:
 		m.occ, m.att = phis[0], phis[1]
@@ -389,31 +663,32 @@ func c18Build(c *Ctx, p *Prog) *c18Model {
 		c.Undec(rule, "heur.SEE#occ", at, "cannot tell occupancy from attacker set: neither/both loop-carried conjuncts start as Colors[0]|Colors[1] minus square bits")
 		return nil
 	}
-	// running balance and parity phis
+	m.occE, m.attE = m.x(m.occ), m.x(m.att)
+	// running balance (some back edge is `value - phi`) and parity (constant entry, one flipped value on all back edges)
 	for _, in := range m.H.Instrs {
 		ph, ok := in.(*ssa.Phi)
 		if !ok || ph == m.occ || ph == m.att {
 			continue
 		}
-		for _, i := range m.backIx {
-			if bo, ok := ph.Edges[i].(*ssa.BinOp); ok && bo.Op == token.SUB && bo.Y == ssa.Value(ph) && m.swap == nil {
-				m.swap = ph
+		phE := m.x(ph)
+		if f := map[string]int{}; m.swap == nil {
+			m.lin(m.x(ph.Edges[m.entryIx]), 1, f, 0)
+			if f["thr"] != 0 { // the balance is the loop-carried value that starts from the threshold
+				m.swap, m.swapE = ph, phE
 			}
 		}
-		if e, ok := constOf(ph.Edges[m.entryIx]); ok && m.res == nil {
-			same := true
+		if e, ok := constOf(ph.Edges[m.entryIx]); ok && m.res == nil && (e == 0 || e == 1) {
+			nv := m.x(ph.Edges[m.backIx[0]])
+			same := nv != phE
 			for _, i := range m.backIx {
-				if ph.Edges[i] != ph.Edges[m.backIx[0]] {
-					same = false
-				}
+				same = same && c18Same(m.x(ph.Edges[i]), nv)
 			}
-			nv := ph.Edges[m.backIx[0]]
-			if same && nv != ssa.Value(ph) {
-				m.res, m.resNew, m.resEntry = ph, nv, e
+			if same {
+				m.res, m.resE, m.resEntry = ph, phE, e
 				v0, k0 := m.parEval(nv, 0)
 				v1, k1 := m.parEval(nv, 1)
-				if !k0 || !k1 || v0 != 1 || v1 != 0 || (e != 0 && e != 1) {
-					m.res = nil
+				if !k0 || !k1 || v0 != 1 || v1 != 0 {
+					m.res, m.resE = nil, nil
 				}
 			}
 		}
@@ -423,43 +698,40 @@ func c18Build(c *Ctx, p *Prog) *c18Model {
 
 // ---------- symbolic helpers ----------
 
-func (m *c18Model) sqRole(v ssa.Value) string {
-	call, ok := stripConv(v).(*ssa.Call)
-	if !ok {
+func (m *c18Model) isParam(e *c18E, p *ssa.Parameter) bool {
+	return e.op == "param" && e.v == ssa.Value(p)
+}
+
+// sqRole: e is m.From() / m.To() / b.CaptureSq(m) of SEE's own move and board.
+func (m *c18Model) sqRole(e *c18E) string {
+	if e.op != "call" {
 		return ""
 	}
-	a := call.Call.Args
-	switch objName(calleeObj(call)) {
+	switch e.name {
 	case "move.(Move).From":
-		if len(a) == 1 && a[0] == ssa.Value(m.pM) {
+		if len(e.a) == 1 && m.isParam(e.a[0], m.pM) {
 			return "from"
 		}
 	case "move.(Move).To":
-		if len(a) == 1 && a[0] == ssa.Value(m.pM) {
+		if len(e.a) == 1 && m.isParam(e.a[0], m.pM) {
 			return "to"
 		}
 	case "board.(*Board).CaptureSq":
-		if len(a) == 2 && a[0] == ssa.Value(m.pB) && a[1] == ssa.Value(m.pM) {
+		if len(e.a) == 2 && m.isParam(e.a[0], m.pB) && m.isParam(e.a[1], m.pM) {
 			return "capture"
 		}
 	}
 	return ""
 }
 
-// bitRoles: v is 1<<sq or an |-combination of such -> roles of the squares.
-func (m *c18Model) bitRoles(v ssa.Value) ([]string, bool) {
-	var ls []ssa.Value
-	c18OrLeaves(v, &ls)
+// bitRoles: e is 1<<sq or an |-combination of such -> roles of the squares.
+func (m *c18Model) bitRoles(e *c18E) ([]string, bool) {
 	var out []string
-	for _, l := range ls {
-		bo, ok := l.(*ssa.BinOp)
-		if !ok || bo.Op != token.SHL {
+	for _, l := range e.orLeaves() {
+		if l.op != "shl" || !l.a[0].isConst(1) {
 			return nil, false
 		}
-		if one, isc := constOf(bo.X); !isc || one != 1 {
-			return nil, false
-		}
-		r := m.sqRole(bo.Y)
+		r := m.sqRole(l.a[1])
 		if r == "" {
 			return nil, false
 		}
@@ -473,16 +745,19 @@ type c18OccAlt struct {
 	guards  []c18Guard
 }
 
-// occEval: v = (Colors[0]|Colors[1]) with square bits removed, possibly merged by phis.
-func (m *c18Model) occEval(v ssa.Value, depth int) ([]c18OccAlt, bool) {
-	v = stripConv(v)
+// occEval: e = (Colors[0]|Colors[1]) with square bits removed, possibly merged by phis.
+func (m *c18Model) occEval(e *c18E, depth int) ([]c18OccAlt, bool) {
 	if depth > 8 {
 		return nil, false
 	}
-	remove := func(x, bits ssa.Value) ([]c18OccAlt, bool) {
-		rs, ok := m.bitRoles(bits)
-		if !ok {
-			return nil, false
+	remove := func(x *c18E, bits []*c18E) ([]c18OccAlt, bool) {
+		var rs []string
+		for _, bt := range bits {
+			r, ok := m.bitRoles(bt)
+			if !ok {
+				return nil, false
+			}
+			rs = append(rs, r...)
 		}
 		alts, ok := m.occEval(x, depth+1)
 		if !ok {
@@ -500,42 +775,34 @@ func (m *c18Model) occEval(v ssa.Value, depth int) ([]c18OccAlt, bool) {
 		}
 		return alts, true
 	}
-	switch x := v.(type) {
-	case *ssa.BinOp:
-		switch x.Op {
-		case token.OR:
-			ia, oka := c18ColorsIdx(x.X)
-			ib, okb := c18ColorsIdx(x.Y)
-			if oka && okb {
-				ka, ca := constOf(ia)
-				kb, cb := constOf(ib)
-				if ca && cb && ka+kb == 1 && ka*kb == 0 {
-					return []c18OccAlt{{removed: map[string]bool{}}}, true
-				}
-			}
-		case token.XOR:
-			if a, ok := remove(x.X, x.Y); ok {
-				return a, true
-			}
-			return remove(x.Y, x.X)
-		case token.AND_NOT:
-			return remove(x.X, x.Y)
-		case token.AND:
-			if u, ok := stripConv(x.Y).(*ssa.UnOp); ok && u.Op == token.XOR {
-				return remove(x.X, u.X)
-			}
-			if u, ok := stripConv(x.X).(*ssa.UnOp); ok && u.Op == token.XOR {
-				return remove(x.Y, u.X)
-			}
+	switch e.op {
+	case "or":
+		ls := e.orLeaves()
+		if len(ls) == 2 && ls[0].op == "colors" && ls[1].op == "colors" && ls[0].a[0].op == "const" && ls[1].a[0].op == "const" &&
+			ls[0].a[0].k+ls[1].a[0].k == 1 && ls[0].a[0].k*ls[1].a[0].k == 0 {
+			return []c18OccAlt{{removed: map[string]bool{}}}, true
 		}
-	case *ssa.Phi:
+	case "xor":
+		if a, ok := remove(e.a[0], e.a[1:]); ok {
+			return a, true
+		}
+		return remove(e.a[1], e.a[:1])
+	case "and":
+		if pos, neg := e.andLeaves(); len(pos) == 1 && len(neg) > 0 {
+			return remove(pos[0], neg)
+		}
+	case "phi":
+		ph, ok := e.v.(*ssa.Phi)
+		if !ok || ph.Parent() != m.fn {
+			return nil, false
+		}
 		var out []c18OccAlt
-		for i, e := range x.Edges {
-			alts, ok := m.occEval(e, depth+1)
+		for i, ed := range ph.Edges {
+			alts, ok := m.occEval(m.x(ed), depth+1)
 			if !ok {
 				return nil, false
 			}
-			g := c18EdgeGuards(x.Block().Preds[i], x.Block())
+			g := m.edgeGuards(ph.Block().Preds[i], ph.Block())
 			for _, a := range alts {
 				a.guards = append(append([]c18Guard{}, a.guards...), g...)
 				out = append(out, a)
@@ -546,98 +813,67 @@ func (m *c18Model) occEval(v ssa.Value, depth int) ([]c18OccAlt, bool) {
 	return nil, false
 }
 
-func (m *c18Model) isEPCall(v ssa.Value) bool {
-	call, ok := stripConv(v).(*ssa.Call)
-	return ok && objName(calleeObj(call)) == "board.(*Board).IsEnPassant" && len(call.Call.Args) == 2 && call.Call.Args[0] == ssa.Value(m.pB) && call.Call.Args[1] == ssa.Value(m.pM)
+func (m *c18Model) isPromoCall(e *c18E) bool {
+	return e.op == "call" && e.name == "move.(Move).Promo" && len(e.a) == 1 && m.isParam(e.a[0], m.pM)
 }
 
-// pvIndex: v is a load of heur.PieceValues[idx].
-func (m *c18Model) pvIndex(v ssa.Value) (ssa.Value, bool) {
-	u, ok := stripConv(v).(*ssa.UnOp)
-	if !ok || u.Op != token.MUL {
-		return nil, false
-	}
-	ia, ok := u.X.(*ssa.IndexAddr)
-	if !ok {
-		return nil, false
-	}
-	g, ok := ia.X.(*ssa.Global)
-	if !ok || globalName(g) != "heur.PieceValues" {
-		return nil, false
-	}
-	return ia.Index, true
-}
-
-func (m *c18Model) isPromoCall(v ssa.Value) bool {
-	call, ok := stripConv(v).(*ssa.Call)
-	return ok && objName(calleeObj(call)) == "move.(Move).Promo" && len(call.Call.Args) == 1 && call.Call.Args[0] == ssa.Value(m.pM)
-}
-
-// lin adds sign*v to the linear form out (atoms: PV@role, PV[Kind], thr, promoVal, "1").
-func (m *c18Model) lin(v ssa.Value, sign int, out map[string]int, depth int) {
-	v = stripConv(v)
+// lin adds sign*e to the linear form out (atoms: PV@role, PV[Kind], thr, promoVal, "1").
+func (m *c18Model) lin(e *c18E, sign int, out map[string]int, depth int) {
 	if depth > 12 {
 		out["?deep"] += sign
 		return
 	}
-	if k, ok := constOf(v); ok {
-		out["1"] += sign * int(k)
+	if m.swapE != nil && e == m.swapE {
+		out["bal"] += sign
 		return
 	}
-	if idx, ok := m.pvIndex(v); ok {
-		idx = stripConv(idx)
-		if k, isc := constOf(idx); isc {
-			out["PV["+m.pcs[k]+"]"] += sign
-		} else if m.isPromoCall(idx) {
-			out["PV@promo"] += sign
-		} else if u, ok := idx.(*ssa.UnOp); ok && u.Op == token.MUL {
-			role := ""
-			if ia, ok := u.X.(*ssa.IndexAddr); ok {
-				if fr, ok := asFieldAddr(ia.X); ok && fr.Name() == "Board.SquaresToPiece" {
-					role = m.sqRole(ia.Index)
-				}
-			}
-			if role == "" {
-				role = "?" + v.Name()
-			}
-			out["PV@"+role] += sign
-		} else {
-			out["PV@?"+v.Name()] += sign
-		}
+	switch e.op {
+	case "const":
+		out["1"] += sign * int(e.k)
 		return
-	}
-	switch x := v.(type) {
-	case *ssa.Parameter:
-		if x == m.pThr {
+	case "add":
+		m.lin(e.a[0], sign, out, depth+1)
+		m.lin(e.a[1], sign, out, depth+1)
+		return
+	case "sub":
+		m.lin(e.a[0], sign, out, depth+1)
+		m.lin(e.a[1], -sign, out, depth+1)
+		return
+	case "neg":
+		m.lin(e.a[0], -sign, out, depth+1)
+		return
+	case "param":
+		if m.isParam(e, m.pThr) {
 			out["thr"] += sign
 			return
 		}
-	case *ssa.BinOp:
-		switch x.Op {
-		case token.ADD:
-			m.lin(x.X, sign, out, depth+1)
-			m.lin(x.Y, sign, out, depth+1)
-			return
-		case token.SUB:
-			m.lin(x.X, sign, out, depth+1)
-			m.lin(x.Y, -sign, out, depth+1)
-			return
+	case "glob":
+		if e.name != "heur.PieceValues" {
+			break
 		}
-	case *ssa.UnOp:
-		if x.Op == token.SUB {
-			m.lin(x.X, -sign, out, depth+1)
-			return
+		switch idx := e.a[0]; {
+		case idx.op == "const":
+			out["PV["+m.pcs[idx.k]+"]"] += sign
+		case m.isPromoCall(idx):
+			out["PV@promo"] += sign
+		case idx.op == "stp" && m.sqRole(idx.a[0]) != "":
+			out["PV@"+m.sqRole(idx.a[0])] += sign
+		default:
+			out["PV@?"+idx.key()] += sign
 		}
-	case *ssa.Phi:
-		if ok, note := m.promoPhi(x); ok {
-			if note != "" {
-				m.promoNote = note
+		return
+	case "phi":
+		if ph, ok := e.v.(*ssa.Phi); ok && ph.Parent() == m.fn {
+			if is, note := m.promoPhi(ph); is {
+				if note != "" {
+					m.promoNote = note
+				}
+				out["promoVal"] += sign
+				return
 			}
-			out["promoVal"] += sign
-			return
 		}
 	}
-	out["?"+v.Name()] += sign
+	out["?"+e.key()] += sign
 }
 
 func c18LinStr(f map[string]int) string {
@@ -663,7 +899,7 @@ func (m *c18Model) promoPhi(x *ssa.Phi) (bool, string) {
 	}
 	zi := -1
 	for i, e := range x.Edges {
-		if k, ok := constOf(e); ok && k == 0 {
+		if m.x(e).isConst(0) {
 			zi = i
 		}
 	}
@@ -671,7 +907,7 @@ func (m *c18Model) promoPhi(x *ssa.Phi) (bool, string) {
 		return false, ""
 	}
 	f := map[string]int{}
-	m.lin(x.Edges[1-zi], 1, f, 1)
+	m.lin(m.x(x.Edges[1-zi]), 1, f, 1)
 	if f["PV@promo"] == 0 {
 		return false, ""
 	}
@@ -680,23 +916,22 @@ func (m *c18Model) promoPhi(x *ssa.Phi) (bool, string) {
 	}
 	// the zero edge must be exactly the not-a-promotion edge
 	promoTest := func(g c18Guard) (isPromo, known bool) {
-		bo, ok := g.cond.(*ssa.BinOp)
-		if !ok || (bo.Op != token.NEQ && bo.Op != token.EQL) {
+		if (g.cond.op != "eq" && g.cond.op != "ne") || len(g.cond.a) != 2 {
 			return false, false
 		}
-		k, isc := constOf(bo.Y)
-		if !isc || k != 0 || !m.isPromoCall(bo.X) {
+		a, b := g.cond.a[0], g.cond.a[1]
+		if !(m.isPromoCall(a) && b.isConst(0)) && !(m.isPromoCall(b) && a.isConst(0)) {
 			return false, false
 		}
-		return (bo.Op == token.NEQ) == g.truth, true
+		return (g.cond.op == "ne") == g.truth, true
 	}
 	zeroOK, bonusOK := false, false
-	for _, g := range c18EdgeGuards(x.Block().Preds[zi], x.Block()) {
+	for _, g := range m.edgeGuards(x.Block().Preds[zi], x.Block()) {
 		if is, known := promoTest(g); known && !is {
 			zeroOK = true
 		}
 	}
-	for _, g := range c18EdgeGuards(x.Block().Preds[1-zi], x.Block()) {
+	for _, g := range m.edgeGuards(x.Block().Preds[1-zi], x.Block()) {
 		if is, known := promoTest(g); known && is {
 			bonusOK = true
 		}
@@ -708,13 +943,9 @@ func (m *c18Model) promoPhi(x *ssa.Phi) (bool, string) {
 }
 
 // parEval evaluates an integer/boolean expression over the parity phi for res == r.
-func (m *c18Model) parEval(v ssa.Value, r int64) (int64, bool) {
-	v = stripConv(v)
-	if m.res != nil && v == ssa.Value(m.res) {
+func (m *c18Model) parEval(e *c18E, r int64) (int64, bool) {
+	if m.resE != nil && e == m.resE {
 		return r, true
-	}
-	if k, ok := constOf(v); ok {
-		return k, true
 	}
 	b2i := func(b bool) int64 {
 		if b {
@@ -722,33 +953,38 @@ func (m *c18Model) parEval(v ssa.Value, r int64) (int64, bool) {
 		}
 		return 0
 	}
-	switch x := v.(type) {
-	case *ssa.BinOp:
-		a, ok1 := m.parEval(x.X, r)
-		b, ok2 := m.parEval(x.Y, r)
+	switch e.op {
+	case "const":
+		return e.k, true
+	case "phi":
+		if ph, ok := e.v.(*ssa.Phi); ok {
+			if sel, ok := m.phiSel[ph]; ok && sel != e.v {
+				return m.parEval(m.x(sel), r)
+			}
+		}
+	case "xor", "add", "sub", "eq", "ne":
+		a, ok1 := m.parEval(e.a[0], r)
+		b, ok2 := m.parEval(e.a[1], r)
 		if !ok1 || !ok2 {
 			return 0, false
 		}
-		switch x.Op {
-		case token.XOR:
+		switch e.op {
+		case "xor":
 			return a ^ b, true
-		case token.ADD:
+		case "add":
 			return a + b, true
-		case token.SUB:
+		case "sub":
 			return a - b, true
-		case token.EQL:
+		case "eq":
 			return b2i(a == b), true
-		case token.NEQ:
-			return b2i(a != b), true
 		}
-	case *ssa.UnOp:
-		if a, ok := m.parEval(x.X, r); ok {
-			switch x.Op {
-			case token.NOT:
+		return b2i(a != b), true
+	case "lnot", "neg":
+		if a, ok := m.parEval(e.a[0], r); ok {
+			if e.op == "lnot" {
 				return 1 - a, true
-			case token.SUB:
-				return -a, true
 			}
+			return -a, true
 		}
 	}
 	return 0, false
@@ -756,14 +992,44 @@ func (m *c18Model) parEval(v ssa.Value, r int64) (int64, bool) {
 
 // retTable: block b returns a bool that depends only on the parity; value after an
 // even / odd number of completed captures.
-func (m *c18Model) retTable(b *ssa.BasicBlock) (even, odd bool, ok bool) {
-	ret, isr := c18Last(b).(*ssa.Return)
-	if !isr || len(ret.Results) != 1 || m.res == nil {
+// Control leaves along from -> to; jumps are followed and phis on the way are resolved by the edge
+// taken, so `return res == 1` in place and `break` to a shared `return res == 1` read the same.
+func (m *c18Model) retTable(from, to *ssa.BasicBlock) (even, odd bool, ok bool) {
+	if m.res == nil {
 		return false, false, false
 	}
-	e, ok1 := m.parEval(ret.Results[0], m.resEntry)
-	o, ok2 := m.parEval(ret.Results[0], m.resEntry^1)
-	return e != 0, o != 0, ok1 && ok2
+	m.phiSel = map[*ssa.Phi]ssa.Value{}
+	defer func() { m.phiSel = nil }()
+	for hops := 0; hops < 4; hops++ {
+		idx := -1
+		for i, p := range to.Preds {
+			if p == from {
+				idx = i
+			}
+		}
+		if idx < 0 || to == m.H {
+			return false, false, false
+		}
+		for _, in := range to.Instrs {
+			if ph, isp := in.(*ssa.Phi); isp {
+				m.phiSel[ph] = ph.Edges[idx]
+			}
+		}
+		switch last := c18Last(to).(type) {
+		case *ssa.Return:
+			if len(last.Results) != 1 {
+				return false, false, false
+			}
+			e, ok1 := m.parEval(m.x(last.Results[0]), m.resEntry)
+			o, ok2 := m.parEval(m.x(last.Results[0]), m.resEntry^1)
+			return e != 0, o != 0, ok1 && ok2
+		case *ssa.Jump:
+			from, to = to, to.Succs[0]
+		default:
+			return false, false, false
+		}
+	}
+	return false, false, false
 }
 
 func (m *c18Model) kindsBelow(k int64) uint {
@@ -790,32 +1056,26 @@ func (m *c18Model) kindSet(bits uint) string {
 
 func (m *c18Model) r1init(c *Ctx) {
 	const rule = "C18.R1.init"
-	var leaves []ssa.Value
-	c18OrLeaves(m.att.Edges[m.entryIx], &leaves)
 	found := map[string]bool{}
 	opaque := 0
-	for _, lf := range leaves {
-		var pos, neg []ssa.Value
-		c18AndLeaves(lf, &pos, &neg)
+	for _, lf := range m.x(m.att.Edges[m.entryIx]).orLeaves() {
+		pos, _ := lf.andLeaves()
 		understood := false
 		for _, q := range pos {
-			call, ok := q.(*ssa.Call)
-			if !ok {
-				continue
-			}
-			F, ok := attackFns[objName(calleeObj(call))]
+			F, ok := q.attackCall()
 			if !ok {
 				continue
 			}
 			understood = true
-			a := call.Call.Args
+			if len(q.a) == 0 || (F == "PawnCapture" && len(q.a) != 2) {
+				continue
+			}
 			if F == "PawnCapture" {
-				rs, ok := m.bitRoles(a[0])
-				col, isc := constOf(a[1])
-				if ok && len(rs) == 1 && rs[0] == "to" && isc {
-					found[fmt.Sprintf("PawnCapture(colour %d)", col)] = true
+				rs, ok := m.bitRoles(q.a[0])
+				if ok && len(rs) == 1 && rs[0] == "to" && q.a[1].op == "const" {
+					found[fmt.Sprintf("PawnCapture(colour %d)", q.a[1].k)] = true
 				}
-			} else if m.sqRole(a[0]) == "to" {
+			} else if m.sqRole(q.a[0]) == "to" {
 				found[F] = true
 			}
 		}
@@ -845,17 +1105,22 @@ type c18MStore struct {
 	pos token.Pos
 }
 
+type c18Case struct {
+	k    int64
+	succ int // successor index taken when marker == k
+}
+
 type c18Marker struct {
-	alloc    *ssa.Alloc
-	caseTrue map[*ssa.BasicBlock]int64
-	stores   []c18MStore
-	problem  string
-	probPos  token.Pos
-	fail     bool
+	alloc   *ssa.Alloc
+	cases   map[*ssa.BasicBlock]c18Case
+	stores  []c18MStore
+	problem string
+	probPos token.Pos
+	fail    bool
 }
 
 func (m *c18Model) findMarker() *c18Marker {
-	mk := &c18Marker{caseTrue: map[*ssa.BasicBlock]int64{}}
+	mk := &c18Marker{cases: map[*ssa.BasicBlock]c18Case{}}
 	bad := func(fail bool, pos token.Pos, f string, a ...any) {
 		if mk.problem == "" {
 			mk.problem, mk.probPos, mk.fail = fmt.Sprintf(f, a...), pos, fail
@@ -866,21 +1131,16 @@ func (m *c18Model) findMarker() *c18Marker {
 		if !ok || !m.H.Dominates(b) {
 			continue
 		}
-		bo, ok := iff.Cond.(*ssa.BinOp)
-		if !ok || bo.Op != token.EQL {
+		ce := m.x(iff.Cond)
+		if (ce.op != "eq" && ce.op != "ne") || len(ce.a) != 2 {
 			continue
 		}
-		k, isc := constOf(bo.Y)
-		u, isl := stripConv(bo.X).(*ssa.UnOp)
-		if !isc || !isl || u.Op != token.MUL {
-			continue
+		el, k := ce.a[0], ce.a[1]
+		if el.op != "elem" {
+			el, k = k, el
 		}
-		ia, ok := u.X.(*ssa.IndexAddr)
-		if !ok {
-			continue
-		}
-		al, ok := ia.X.(*ssa.Alloc)
-		if !ok {
+		al, isAl := el.v.(*ssa.Alloc)
+		if el.op != "elem" || k.op != "const" || !isAl || al.Parent() != m.fn {
 			continue
 		}
 		if mk.alloc != nil && mk.alloc != al {
@@ -888,8 +1148,12 @@ func (m *c18Model) findMarker() *c18Marker {
 			continue
 		}
 		mk.alloc = al
-		mk.caseTrue[b] = k
-		if !sameValue(ia.Index, m.stmV, 0) {
+		succ := 0
+		if ce.op == "ne" {
+			succ = 1
+		}
+		mk.cases[b] = c18Case{k.k, succ}
+		if !c18Same(el.a[0], m.stmE) {
 			bad(true, c18Pos(iff), "the marker is read for a colour other than the one whose attackers are selected")
 		}
 	}
@@ -942,7 +1206,7 @@ func (m *c18Model) findMarker() *c18Marker {
 						continue
 					}
 					if m.H.Dominates(y.Block()) {
-						if !sameValue(x.Index, m.stmV, 0) {
+						if !c18Same(m.x(x.Index), m.stmE) {
 							bad(true, y.Pos(), "marker value %s is stored for a colour other than the one whose attackers were just examined: the other side's pieces of a cheaper kind are skipped although they were never looked at", m.pcs[k])
 						}
 						mk.stores = append(mk.stores, c18MStore{c: k, b: y.Block(), pos: y.Pos()})
@@ -994,10 +1258,8 @@ func (m *c18Model) flow(mk *c18Marker, exh map[int64]uint) map[*ssa.BasicBlock]u
 				if t := testOf[pr]; t != nil && b == t.els && b != t.taken {
 					out |= 1 << uint(t.kind)
 				}
-				if mk != nil {
-					if k, ok := mk.caseTrue[pr]; ok && pr.Succs[0] == b && pr.Succs[1] != b {
-						out |= exh[k]
-					}
+				if cs, ok := mk.cases[pr]; ok && pr.Succs[cs.succ] == b && pr.Succs[1-cs.succ] != b {
+					out |= exh[cs.k]
 				}
 				acc &= out
 			}
@@ -1014,7 +1276,7 @@ func (m *c18Model) r2(c *Ctx) {
 	const rule = "C18.R2"
 	mk := m.findMarker()
 	if mk == nil {
-		mk = &c18Marker{caseTrue: map[*ssa.BasicBlock]int64{}}
+		mk = &c18Marker{cases: map[*ssa.BasicBlock]c18Case{}}
 	}
 	// kinds whose attacker set cannot grow while pieces leave the board (never refreshed by x-ray)
 	nonGrowing := uint(0)
@@ -1053,7 +1315,7 @@ func (m *c18Model) r2(c *Ctx) {
 	// king tests: X &^ Colors[stm] != 0
 	type kingTest struct {
 		iff   *ssa.If
-		pos   []ssa.Value
+		pos   []*c18E
 		nz, z *ssa.BasicBlock
 	}
 	var kings []kingTest
@@ -1061,19 +1323,18 @@ func (m *c18Model) r2(c *Ctx) {
 	for _, t := range m.tests {
 		understood[t.iff.Block()] = true
 	}
-	for b := range mk.caseTrue {
+	for b := range mk.cases {
 		understood[b] = true
 	}
 	for _, b := range m.fn.Blocks {
 		iff, ok := c18Last(b).(*ssa.If)
-		if !ok || !m.H.Dominates(b) {
+		if !ok || !m.H.Dominates(b) || understood[b] {
 			continue
 		}
-		if x, nz, z, ok := c18ZeroTest(iff); ok {
-			var pos, neg []ssa.Value
-			c18AndLeaves(x, &pos, &neg)
+		if x, nz, z, ok := m.zeroTest(iff); ok {
+			pos, neg := x.andLeaves()
 			for _, q := range neg {
-				if ix, ok := c18ColorsIdx(q); ok && sameValue(ix, m.stmV, 0) && !understood[b] {
+				if q.op == "colors" && c18Same(q.a[0], m.stmE) && !understood[b] {
 					kings = append(kings, kingTest{iff, pos, nz, z})
 					understood[b] = true
 				}
@@ -1130,8 +1391,8 @@ func (m *c18Model) r2(c *Ctx) {
 		}
 		hasA, hasO := false, false
 		for _, q := range k.pos {
-			hasA = hasA || q == ssa.Value(m.att)
-			hasO = hasO || q == ssa.Value(m.occ)
+			hasA = hasA || q == m.attE
+			hasO = hasO || q == m.occE
 		}
 		switch {
 		case hasA && hasO:
@@ -1141,8 +1402,8 @@ func (m *c18Model) r2(c *Ctx) {
 		default:
 			c.Undec("C18.R4", "mask:king", pos, "the king test is not `attackers & occ &^ Colors[stm]` over the loop-carried sets")
 		}
-		ez, oz, okz := m.retTable(k.z)
-		en, on, okn := m.retTable(k.nz)
+		ez, oz, okz := m.retTable(k.iff.Block(), k.z)
+		en, on, okn := m.retTable(k.iff.Block(), k.nz)
 		switch {
 		case !okz || !okn:
 			c.Undec(rule, "king-verdict", pos, "both outcomes of the king test must return a function of the parity flag")
@@ -1153,12 +1414,12 @@ func (m *c18Model) r2(c *Ctx) {
 		}
 	}
 	if len(kings) == 0 {
-		c.Undec(rule, "king-last", m.H.Instrs[0].Pos(), "no `attackers &^ Colors[stm] != 0` test in the loop: how the king takes part is not recognisable")
+		c.Undec(rule, "king-last", c18BlockPos(m.H), "no `attackers &^ Colors[stm] != 0` test in the loop: how the king takes part is not recognisable")
 	}
 	// (c) markers
 	switch {
 	case mk.alloc == nil:
-		c.OkTrivial(rule, "marker-side", m.H.Instrs[0].Pos(), "no per-side marker in the loop: every iteration runs the full chain")
+		c.OkTrivial(rule, "marker-side", c18BlockPos(m.H), "no per-side marker in the loop: every iteration runs the full chain")
 	case mk.problem != "" && mk.fail:
 		c.Fail(rule, "marker-side", mk.probPos, "%s", mk.problem)
 	case mk.problem != "":
@@ -1167,8 +1428,8 @@ func (m *c18Model) r2(c *Ctx) {
 		c.Ok(rule, "marker-side", mk.alloc.Pos(), "the per-side marker is read and stored for the colour whose attackers are selected, with constants only")
 	}
 	cases, seen := map[int64]bool{}, map[int64]bool{}
-	for _, k := range mk.caseTrue {
-		cases[k] = true
+	for _, cs := range mk.cases {
+		cases[cs.k] = true
 	}
 	for _, s := range mk.stores {
 		if seen[s.c] {
@@ -1193,10 +1454,10 @@ func (m *c18Model) r2(c *Ctx) {
 			continue
 		}
 		excl := map[int64]bool{}
-		for _, g := range c18EdgeGuards(m.H.Preds[i], m.H) {
-			for b, k := range mk.caseTrue {
-				if c18Last(b).(*ssa.If).Cond == g.cond && !g.truth {
-					excl[k] = true
+		for _, g := range m.edgeGuards(m.H.Preds[i], m.H) {
+			for b, cs := range mk.cases {
+				if m.x(c18Last(b).(*ssa.If).Cond) == g.cond && g.truth == (cs.succ == 1) {
+					excl[cs.k] = true
 				}
 			}
 		}
@@ -1218,32 +1479,30 @@ func (m *c18Model) r3(c *Ctx) {
 	const rule = "C18.R3"
 	for _, t := range m.oddTests {
 		have := map[string]bool{}
-		for _, q := range t.restV {
-			have[c18Canon(q)] = true
+		for _, q := range t.rest {
+			have[q.key()] = true
 		}
 		var missing []string
-		for _, q := range m.tests[0].restV {
-			if !have[c18Canon(q)] {
-				missing = append(missing, c18Canon(q))
+		for _, q := range m.tests[0].rest {
+			if !have[q.key()] {
+				missing = append(missing, q.key())
 			}
 		}
-		if len(missing) > 0 && len(t.restV) < len(m.tests[0].restV) {
+		if len(missing) > 0 && len(t.rest) < len(m.tests[0].rest) {
 			c.Fail(rule, "set:"+t.name, c18Pos(t.iff), "the %s test selects from a wider set than the other branches (attackers & occ & Colors[stm]); missing conjunct(s) %v: pieces of the wrong side or already traded pieces capture", t.name, missing)
 		} else {
 			c.Undec(rule, "set:"+t.name, c18Pos(t.iff), "the %s test selects from a set built differently from the other branches", t.name)
 		}
 	}
 	if m.swap == nil || m.res == nil {
-		c.Undec(rule, "loop-state", m.H.Instrs[0].Pos(), "running balance (phi with `value - balance` on a back edge) or parity flag (phi from a constant, flipped identically on every back edge) not recognised")
+		c.Undec(rule, "loop-state", c18BlockPos(m.H), "running balance (phi with `value - balance` on a back edge) or parity flag (phi from a constant, flipped identically on every back edge) not recognised")
 		return
 	}
 	// parity: loop exit when the side to move has no attacker
 	if iff, ok := c18Last(m.H).(*ssa.If); ok {
-		if x, _, z, ok := c18ZeroTest(iff); ok {
-			var pos, neg []ssa.Value
-			c18AndLeaves(x, &pos, &neg)
-			if c18Key(pos) == m.tests[0].rest && len(neg) == 0 {
-				e, o, okr := m.retTable(z)
+		if x, _, z, ok := m.zeroTest(iff); ok {
+			if pos, neg := x.andLeaves(); c18Keys(pos) == m.tests[0].restKey && len(neg) == 0 {
+				e, o, okr := m.retTable(m.H, z)
 				if !okr {
 					c.Undec(rule, "parity:no-attacker", c18Pos(iff), "the exit taken when the side to move has no attacker does not return a function of the parity flag")
 				} else {
@@ -1260,98 +1519,124 @@ func (m *c18Model) r3(c *Ctx) {
 		}
 		n++
 		for _, i := range t.backs {
-			pr := m.H.Preds[i]
 			// value subtracted
-			nsw := m.swap.Edges[i]
-			bo, ok := nsw.(*ssa.BinOp)
-			var idx ssa.Value
-			if ok && bo.Op == token.SUB && bo.Y == ssa.Value(m.swap) {
-				idx, ok = m.pvIndex(bo.X)
-			} else {
-				ok = false
+			nsw := m.x(m.swap.Edges[i])
+			pos := nsw.pos()
+			if !pos.IsValid() {
+				pos = c18Pos(t.iff)
 			}
-			if !ok {
-				c.Undec(rule, "value:"+t.name, c18Pos(t.iff), "new balance of the %s branch is not `PieceValues[K'] - balance`", t.name)
-			} else if k, isc := constOf(idx); !isc {
-				c.Undec(rule, "value:"+t.name, bo.Pos(), "PieceValues index in the %s branch is not a constant", t.name)
-			} else if m.val[k] == m.val[t.kind] {
-				c.Ok(rule, "value:"+t.name, bo.Pos(), "%s branch puts PieceValues[%s] = %d at risk", t.name, m.pcs[k], m.val[k])
-			} else {
-				c.Fail(rule, "value:"+t.name, bo.Pos(), "the branch that captures with a %s (value %d) books PieceValues[%s] = %d as the piece at risk", t.name, m.val[t.kind], m.pcs[k], m.val[k])
+			f := map[string]int{}
+			m.lin(nsw, 1, f, 0)
+			booked, others := int64(-1), 0
+			for k, n := range f {
+				if n == 0 || k == "bal" {
+					continue
+				}
+				others++
+				for q, nm := range m.pcs {
+					if k == "PV["+nm+"]" && n == 1 {
+						booked = q
+					}
+				}
 			}
-			// one bit of the tested set leaves the occupancy
+			switch {
+			case nsw == m.swapE:
+				c.Fail(rule, "value:"+t.name, pos, "balance unchanged by a %s capture", t.name)
+			case f["bal"] != -1 || others != 1 || booked < 0:
+				c.Undec(rule, "value:"+t.name, pos, "new balance of the %s branch is [%s], not `PieceValues[K'] - balance` with a constant K'", t.name, c18LinStr(f))
+			case m.val[booked] == m.val[t.kind]:
+				c.Ok(rule, "value:"+t.name, pos, "%s branch puts PieceValues[%s] = %d at risk", t.name, m.pcs[booked], m.val[booked])
+			default:
+				c.Fail(rule, "value:"+t.name, pos, "the branch that captures with a %s (value %d) books PieceValues[%s] = %d as the piece at risk", t.name, m.val[t.kind], m.pcs[booked], m.val[booked])
+			}
 			m.oneBit(c, rule, t, i)
-			// early exit
-			m.earlyExit(c, rule, t, pr, nsw)
-			// parity flips
-			if m.swap.Edges[i] == ssa.Value(m.swap) {
-				c.Fail(rule, "value:"+t.name, c18Pos(t.iff), "balance unchanged by a capture")
-			}
+			m.earlyExit(c, rule, t, m.H.Preds[i], nsw)
 		}
 	}
 	c.Floor(rule, n, 5, "capture branches with a back edge")
 }
 
+// oneBit: the occupancy sent round back edge i is occ minus exactly T & -T.
 func (m *c18Model) oneBit(c *Ctx, rule string, t *c18Test, i int) {
 	key := "one-bit:" + t.name
-	nocc := stripConv(m.occ.Edges[i])
+	nocc := m.x(m.occ.Edges[i])
 	pos := c18Pos(t.iff)
-	if nocc == ssa.Value(m.occ) {
+	if p := nocc.pos(); p.IsValid() {
+		pos = p
+	}
+	if nocc == m.occE {
 		c.Fail(rule, key, pos, "the capturing %s stays in the occupancy: it captures again and x-rays behind it never open", t.name)
 		return
 	}
-	var removed ssa.Value
-	if bo, ok := nocc.(*ssa.BinOp); ok {
-		pos = bo.Pos()
-		x, y := stripConv(bo.X), stripConv(bo.Y)
-		switch bo.Op {
-		case token.AND_NOT:
-			if x == ssa.Value(m.occ) {
-				removed = y
-			}
-		case token.XOR:
-			if x == ssa.Value(m.occ) {
-				removed = y
-			} else if y == ssa.Value(m.occ) {
-				removed = x
-			}
-		case token.AND:
-			if u, ok := y.(*ssa.UnOp); ok && u.Op == token.XOR && x == ssa.Value(m.occ) {
-				removed = stripConv(u.X)
-			} else if u, ok := x.(*ssa.UnOp); ok && u.Op == token.XOR && y == ssa.Value(m.occ) {
-				removed = stripConv(u.X)
-			}
+	var removed *c18E
+	switch nocc.op {
+	case "sub": // the bit is known to be set
+		if nocc.a[0] == m.occE {
+			removed = nocc.a[1]
+		}
+	case "xor":
+		if nocc.a[0] == m.occE {
+			removed = nocc.a[1]
+		} else if nocc.a[1] == m.occE {
+			removed = nocc.a[0]
+		}
+	case "and":
+		if ps, ng := nocc.andLeaves(); len(ps) == 1 && ps[0] == m.occE && len(ng) == 1 {
+			removed = ng[0]
 		}
 	}
 	if removed == nil {
 		c.Undec(rule, key, pos, "new occupancy of the %s branch is not `occ` minus a bit set", t.name)
 		return
 	}
-	if removed == t.T || c18SetKey(removed) == c18SetKey(t.T) {
+	if c18Same(removed, t.T) {
 		c.Fail(rule, key, pos, "all attacking %ss of the side to move leave the occupancy at once; exactly one (x & -x) makes the capture, a second one must still be able to recapture", t.name)
 		return
 	}
-	// removed == X & -X
-	var src ssa.Value
-	if bo, ok := removed.(*ssa.BinOp); ok && bo.Op == token.AND {
-		x, y := stripConv(bo.X), stripConv(bo.Y)
-		if u, ok := y.(*ssa.UnOp); ok && u.Op == token.SUB && stripConv(u.X) == x {
+	// removed == X & -X  or  X &^ (X-1)
+	var src *c18E
+	if removed.op == "and" && len(removed.a) == 2 {
+		x, y := removed.a[0], removed.a[1]
+		isLow := func(x, y *c18E) bool {
+			return y.op == "neg" && c18Same(y.a[0], x) || y.op == "not" && y.a[0].op == "sub" && c18Same(y.a[0].a[0], x) && y.a[0].a[1].isConst(1)
+		}
+		if isLow(x, y) {
 			src = x
-		} else if u, ok := x.(*ssa.UnOp); ok && u.Op == token.SUB && stripConv(u.X) == y {
+		} else if isLow(y, x) {
 			src = y
 		}
 	}
 	switch {
 	case src == nil:
 		c.Undec(rule, key, pos, "bits removed in the %s branch are not of the form x & -x", t.name)
-	case src == t.T || c18SetKey(src) == c18SetKey(t.T):
+	case c18Same(src, t.T):
 		c.Ok(rule, key, pos, "exactly the lowest bit of the tested %s set leaves the occupancy", t.name)
 	default:
 		c.Fail(rule, key, pos, "the bit removed from the occupancy in the %s branch is the lowest bit of a different set than the one tested: the piece that leaves need not be a %s, value and x-ray refresh no longer match it", t.name, t.name)
 	}
 }
 
-func (m *c18Model) earlyExit(c *Ctx, rule string, t *c18Test, pr *ssa.BasicBlock, nsw ssa.Value) {
+// cmpWith: the If compares `what` with a bound; normalised to "leave through exit iff what < bound+adj".
+func (m *c18Model) cmpWith(iff *ssa.If, what *c18E) (bound *c18E, adj int64, exit *ssa.BasicBlock, ok bool) {
+	ce := m.x(iff.Cond)
+	if (ce.op != "lt" && ce.op != "le") || len(ce.a) != 2 {
+		return nil, 0, nil, false
+	}
+	b := iff.Block()
+	switch {
+	case c18Same(ce.a[0], what) && ce.op == "lt": // what < r
+		return ce.a[1], 0, b.Succs[0], true
+	case c18Same(ce.a[0], what): // what <= r
+		return ce.a[1], 1, b.Succs[0], true
+	case c18Same(ce.a[1], what) && ce.op == "lt": // r < what: leaves through the else edge iff what <= r
+		return ce.a[0], 1, b.Succs[1], true
+	case c18Same(ce.a[1], what): // r <= what: else edge iff what < r
+		return ce.a[0], 0, b.Succs[1], true
+	}
+	return nil, 0, nil, false
+}
+
+func (m *c18Model) earlyExit(c *Ctx, rule string, t *c18Test, pr *ssa.BasicBlock, nsw *c18E) {
 	key := "exit:" + t.name
 	found := 0
 	for _, b := range m.fn.Blocks {
@@ -1359,42 +1644,14 @@ func (m *c18Model) earlyExit(c *Ctx, rule string, t *c18Test, pr *ssa.BasicBlock
 		if !ok || !t.taken.Dominates(b) {
 			continue
 		}
-		bo, ok := iff.Cond.(*ssa.BinOp)
+		bound, adj, exit, ok := m.cmpWith(iff, nsw)
 		if !ok {
-			continue
-		}
-		var bound ssa.Value
-		left := false
-		if stripConv(bo.X) == nsw {
-			bound, left = bo.Y, true
-		} else if stripConv(bo.Y) == nsw {
-			bound = bo.X
-		} else {
-			continue
-		}
-		// normalise to: leave via `exit` iff balance < bound+adj
-		op := bo.Op
-		if !left {
-			op = map[token.Token]token.Token{token.LSS: token.GTR, token.GTR: token.LSS, token.LEQ: token.GEQ, token.GEQ: token.LEQ}[op]
-		}
-		var exit *ssa.BasicBlock
-		adj := int64(0)
-		switch op {
-		case token.LSS:
-			exit = b.Succs[0]
-		case token.LEQ:
-			exit, adj = b.Succs[0], 1
-		case token.GEQ:
-			exit = b.Succs[1]
-		case token.GTR:
-			exit, adj = b.Succs[1], 1
-		default:
 			continue
 		}
 		found++
 		be, ok1 := m.parEval(bound, m.resEntry)
 		bod, ok2 := m.parEval(bound, m.resEntry^1)
-		re, ro, ok3 := m.retTable(exit)
+		re, ro, ok3 := m.retTable(b, exit)
 		switch {
 		case !b.Dominates(pr):
 			c.Fail(rule, key, c18Pos(iff), "the stand-pat test of the %s branch is not on every path to the next iteration", t.name)
@@ -1415,6 +1672,7 @@ func (m *c18Model) r4(c *Ctx) {
 	const rule = "C18.R4"
 	c.Ok(rule, "mask:selection", c18Pos(m.tests[0].iff), "all %d tests select from attackers(phi) & occ(phi) & Colors[stm]; occ(phi) receives each branch's updated occupancy (R3 one-bit)", len(m.tests))
 	n := 0
+	rayName := map[string]string{"Bishop": "diag", "Rook": "orth"}
 	for _, t := range m.tests {
 		var need []string
 		switch t.name {
@@ -1425,32 +1683,23 @@ func (m *c18Model) r4(c *Ctx) {
 		case "Queen":
 			need = []string{"Bishop", "Rook"}
 		}
-		rayName := map[string]string{"Bishop": "diag", "Rook": "orth"}
 		for _, i := range t.backs {
-			natt := m.att.Edges[i]
-			nocc := m.occ.Edges[i]
-			var leaves []ssa.Value
-			c18OrLeaves(natt, &leaves)
+			nocc := m.x(m.occ.Edges[i])
 			carry, opaque := false, 0
 			state := map[string]string{}
-			var at token.Pos = c18Pos(t.iff)
-			for _, lf := range leaves {
-				var pos, neg []ssa.Value
-				c18AndLeaves(lf, &pos, &neg)
-				var call *ssa.Call
+			at := c18Pos(t.iff)
+			for _, lf := range m.x(m.att.Edges[i]).orLeaves() {
+				pos, _ := lf.andLeaves()
+				var call *c18E
 				pieces, leafCarry := false, false
 				for _, q := range pos {
-					if q == ssa.Value(m.att) {
+					if q == m.attE {
 						carry, leafCarry = true, true
 					}
-					if cl, ok := q.(*ssa.Call); ok {
-						if _, ok := attackFns[objName(calleeObj(cl))]; ok {
-							call = cl
-						}
+					if _, ok := q.attackCall(); ok {
+						call = q
 					}
-					if _, ok := pureOrOfPieces(q, m.pcs); ok {
-						pieces = true
-					}
+					pieces = pieces || q.pieceSet()
 				}
 				if call == nil {
 					if !leafCarry {
@@ -1458,25 +1707,26 @@ func (m *c18Model) r4(c *Ctx) {
 					}
 					continue
 				}
-				F := attackFns[objName(calleeObj(call))]
-				if F != "Bishop" && F != "Rook" {
+				F, _ := call.attackCall()
+				if (F != "Bishop" && F != "Rook") || len(call.a) != 2 {
 					continue
 				}
-				a := call.Call.Args
 				st := "ok"
-				switch role := m.sqRole(a[0]); {
+				switch role := m.sqRole(call.a[0]); {
 				case role == "from" || role == "capture":
 					st = "is taken from the " + role + " square, not from the move's To() square"
 				case role != "to" || !pieces:
 					st = "?is not `pattern(To(), occ) & piece sets` in a form this rule can read"
-				case stripConv(a[1]) == ssa.Value(m.occ):
+				case call.a[1] == m.occE:
 					st = "is computed with the occupancy from before this capture (the capturer still blocks the line it stood on)"
-				case stripConv(a[1]) != stripConv(nocc):
+				case !c18Same(call.a[1], nocc):
 					st = "?uses an occupancy value that is neither the old nor the updated loop occupancy"
 				}
 				if state[F] != "ok" {
 					state[F] = st
-					at = call.Pos()
+					if p := call.pos(); p.IsValid() {
+						at = p
+					}
 				}
 			}
 			if carry {
@@ -1489,21 +1739,17 @@ func (m *c18Model) r4(c *Ctx) {
 			for _, F := range need {
 				key := "xray:" + t.name + ":" + rayName[F]
 				n++
-				switch state[F] {
-				case "ok":
+				switch st := state[F]; {
+				case st == "ok":
 					c.Ok(rule, key, at, "after a %s capture %s lines through the target are re-read with the updated occupancy", t.name, rayName[F])
-				case "":
-					if opaque > 0 {
-						c.Undec(rule, key, c18Pos(t.iff), "no %sMoves refresh visible after a %s capture, but the new attacker set has %d part(s) this rule cannot read", F, t.name, opaque)
-					} else {
-						c.Fail(rule, key, c18Pos(t.iff), "after a %s capture no %sMoves refresh is or-ed into the attacker set: a slider standing behind the capturer on that line never joins the exchange", t.name, F)
-					}
+				case st == "" && opaque > 0:
+					c.Undec(rule, key, c18Pos(t.iff), "no %sMoves refresh visible after a %s capture, but the new attacker set has %d part(s) this rule cannot read", F, t.name, opaque)
+				case st == "":
+					c.Fail(rule, key, c18Pos(t.iff), "after a %s capture no %sMoves refresh is or-ed into the attacker set: a slider standing behind the capturer on that line never joins the exchange", t.name, F)
+				case strings.HasPrefix(st, "?"):
+					c.Undec(rule, key, at, "after a %s capture the %sMoves refresh %s", t.name, F, st[1:])
 				default:
-					if strings.HasPrefix(state[F], "?") {
-						c.Undec(rule, key, at, "after a %s capture the %sMoves refresh %s", t.name, F, state[F][1:])
-					} else {
-						c.Fail(rule, key, at, "after a %s capture the %sMoves refresh %s", t.name, F, state[F])
-					}
+					c.Fail(rule, key, at, "after a %s capture the %sMoves refresh %s", t.name, F, st)
 				}
 			}
 		}
@@ -1513,8 +1759,8 @@ func (m *c18Model) r4(c *Ctx) {
 
 // ---------- R5: entry bookkeeping ----------
 
-func (m *c18Model) checkOcc(c *Ctx, rule, key string, v ssa.Value, pos token.Pos) {
-	alts, ok := m.occEval(v, 0)
+func (m *c18Model) checkOcc(c *Ctx, rule, key string, e *c18E, pos token.Pos) {
+	alts, ok := m.occEval(e, 0)
 	if !ok {
 		c.Undec(rule, key, pos, "occupancy is not `Colors[White]|Colors[Black]` minus square bits")
 		return
@@ -1529,12 +1775,13 @@ func (m *c18Model) checkOcc(c *Ctx, rule, key string, v ssa.Value, pos token.Pos
 		}
 		notEP, other := false, 0
 		for _, g := range a.guards {
-			if m.isEPCall(g.cond) {
+			cd := g.cond
+			switch {
+			case cd.op == "call" && cd.name == "board.(*Board).IsEnPassant" && len(cd.a) == 2 && m.isParam(cd.a[0], m.pB) && m.isParam(cd.a[1], m.pM):
 				notEP = notEP || !g.truth
-			} else if bo, ok := g.cond.(*ssa.BinOp); ok && (bo.Op == token.EQL || bo.Op == token.NEQ) && m.sqRole(bo.X)+m.sqRole(bo.Y) != "" &&
-				(m.sqRole(bo.X) == "capture" && m.sqRole(bo.Y) == "to" || m.sqRole(bo.X) == "to" && m.sqRole(bo.Y) == "capture") {
-				notEP = notEP || (bo.Op == token.EQL) == g.truth
-			} else {
+			case (cd.op == "eq" || cd.op == "ne") && len(cd.a) == 2 && (m.sqRole(cd.a[0]) == "capture" && m.sqRole(cd.a[1]) == "to" || m.sqRole(cd.a[0]) == "to" && m.sqRole(cd.a[1]) == "capture"):
+				notEP = notEP || (cd.op == "eq") == g.truth
+			default:
 				other++
 			}
 		}
@@ -1550,120 +1797,155 @@ func (m *c18Model) checkOcc(c *Ctx, rule, key string, v ssa.Value, pos token.Pos
 	c.Ok(rule, key, pos, "mover removed on every path; en-passant victim removed at CaptureSq whenever IsEnPassant may hold (%d path(s))", len(alts))
 }
 
-func (m *c18Model) r5(c *Ctx) {
-	const rule = "C18.R5"
-	n := 0
-	entryOcc := m.occ.Edges[m.entryIx]
-	m.checkOcc(c, rule, "occ:loop-entry", entryOcc, m.occ.Pos())
-	n++
-	// occupancy of the first attacker computation
-	var leaves []ssa.Value
-	c18OrLeaves(m.att.Edges[m.entryIx], &leaves)
-	for _, lf := range leaves {
-		var pos, neg []ssa.Value
-		c18AndLeaves(lf, &pos, &neg)
-		for _, q := range pos {
-			call, ok := q.(*ssa.Call)
-			if !ok {
-				continue
-			}
-			F := attackFns[objName(calleeObj(call))]
-			if F == "Bishop" || F == "Rook" {
-				m.checkOcc(c, rule, "occ:first-attackers:"+F, call.Call.Args[1], call.Pos())
-				n++
-			}
-		}
-	}
-	// gain and risk
-	expGain := "+1*PV@capture +1*promoVal -1*thr"
-	expRisk := "-1*PV@capture +1*PV@from +1*thr"
-	var gainIf *ssa.If
+// c18Gate: an If before the loop one of whose successors returns a constant: "return ret iff form < 0".
+type c18Gate struct {
+	iff  *ssa.If
+	form string
+	ret  bool
+	note string
+}
+
+func (m *c18Model) gates() []c18Gate {
+	var out []c18Gate
 	for _, b := range m.fn.Blocks {
 		iff, ok := c18Last(b).(*ssa.If)
 		if !ok || b == m.H || !b.Dominates(m.H) {
 			continue
 		}
-		bo, ok := iff.Cond.(*ssa.BinOp)
-		if !ok || (bo.Op != token.LSS && bo.Op != token.GTR) {
+		ce := m.x(iff.Cond)
+		if (ce.op != "lt" && ce.op != "le") || len(ce.a) != 2 {
 			continue
 		}
-		f := map[string]int{}
-		s := 1
-		if bo.Op == token.GTR {
-			s = -1
+		for si, s := range b.Succs {
+			ret, isr := c18Last(s).(*ssa.Return)
+			if !isr || len(ret.Results) != 1 {
+				continue
+			}
+			rv := m.x(ret.Results[0])
+			if rv.op != "const" {
+				continue
+			}
+			// cond is a < b (lt) or a <= b (le); with f = a - b: true edge iff f < 0 resp. f - 1 < 0... in integers f <= 0 iff f-1 < 0;
+			// false edge iff -f <= 0 (i.e. -f-1 < 0) resp. -f < 0
+			f := map[string]int{}
+			sign := 1
+			if si == 1 {
+				sign = -1
+			}
+			m.promoNote = ""
+			m.lin(ce.a[0], sign, f, 0)
+			m.lin(ce.a[1], -sign, f, 0)
+			if (ce.op == "le") == (si == 0) {
+				f["1"]--
+			}
+			out = append(out, c18Gate{iff, c18LinStr(f), rv.k != 0, m.promoNote})
 		}
-		m.promoNote = ""
-		m.lin(bo.X, s, f, 0)
-		m.lin(bo.Y, -s, f, 0)
-		if f["thr"] == 0 {
-			continue
+	}
+	return out
+}
+
+func (m *c18Model) r5(c *Ctx) {
+	const rule = "C18.R5"
+	n := 0
+	m.checkOcc(c, rule, "occ:loop-entry", m.x(m.occ.Edges[m.entryIx]), m.occ.Pos())
+	n++
+	// occupancy of the first attacker computation
+	for _, lf := range m.x(m.att.Edges[m.entryIx]).orLeaves() {
+		pos, _ := lf.andLeaves()
+		for _, q := range pos {
+			if F, ok := q.attackCall(); ok && (F == "Bishop" || F == "Rook") && len(q.a) == 2 {
+				p := q.pos()
+				if !p.IsValid() {
+					p = m.att.Pos()
+				}
+				m.checkOcc(c, rule, "occ:first-attackers:"+F, q.a[1], p)
+				n++
+			}
 		}
-		gainIf = iff
-		n++
-		ret, isr := c18Last(b.Succs[0]).(*ssa.Return)
-		rv := int64(-1)
-		if isr && len(ret.Results) == 1 {
-			rv, _ = constOf(ret.Results[0])
+	}
+	// the two gates before the loop: gain < 0 -> false; risk <= 0 -> true
+	expect := map[string]struct {
+		form map[string]int
+		ret  bool
+		why  string
+	}{
+		"gain": {map[string]int{"PV@capture": 1, "promoVal": 1, "thr": -1}, false, "SEE must give up exactly when the gain of the move itself — the piece standing on CaptureSq (not To(): en passant) plus the promotion bonus, minus the threshold — is negative"},
+		"risk": {map[string]int{"PV@from": 1, "PV@capture": -1, "thr": 1, "1": -1}, true, "SEE must succeed at once exactly when losing the moved piece (a promoted pawn counts with its new value; the bonus cancels against the gain) still leaves gain - risk >= threshold, i.e. risk - gain + threshold <= 0; the loop relies on a positive balance on entry"},
+	}
+	gs := m.gates()
+	for _, key := range []string{"gain", "risk"} {
+		ex := expect[key]
+		want := c18LinStr(ex.form)
+		var same []c18Gate
+		hit := false
+		for _, g := range gs {
+			if g.ret != ex.ret {
+				continue
+			}
+			same = append(same, g)
+			if g.form == want && !hit {
+				hit = true
+				n++
+				if g.note != "" {
+					c.Fail(rule, key, c18Pos(g.iff), "%s", g.note)
+				} else {
+					c.Ok(rule, key, c18Pos(g.iff), "returns %v before the loop iff [%s] < 0", ex.ret, want)
+				}
+			}
 		}
-		got := c18LinStr(f)
 		switch {
-		case strings.Contains(got, "?"):
-			c.Undec(rule, "gain", c18Pos(iff), "first-capture gain has a term this rule does not understand: %s", got)
-		case got != expGain:
-			c.Fail(rule, "gain", c18Pos(iff), "SEE gives up when [%s] < 0; the gain of the move itself must be [%s] (piece standing on CaptureSq — differs from To() for en passant — plus the promotion bonus, minus the threshold)", got, expGain)
-		case m.promoNote != "":
-			c.Fail(rule, "gain", c18Pos(iff), "%s", m.promoNote)
-		case rv != 0:
-			c.Fail(rule, "gain", c18Pos(iff), "gain below threshold must return false")
+		case hit:
+		case len(same) == 1 && !strings.Contains(same[0].form, "?"):
+			c.Fail(rule, key, c18Pos(same[0].iff), "SEE returns %v before the loop iff [%s] < 0, expected iff [%s] < 0: %s", ex.ret, same[0].form, want, ex.why)
 		default:
-			c.Ok(rule, "gain", c18Pos(iff), "gain test is [%s] < 0 -> false, promotion bonus = PieceValues[promo]-PieceValues[Pawn] only when Promo() != NoPiece", got)
+			c.Undec(rule, key, m.fn.Pos(), "no recognisable `return %v iff [%s] < 0` before the loop (%d candidate comparisons): %s", ex.ret, want, len(same), ex.why)
 		}
 	}
-	if gainIf == nil {
-		c.Undec(rule, "gain", m.fn.Pos(), "no `gain - threshold < 0` exit before the loop")
-	}
+	// balance entering the loop
 	if m.swap == nil {
-		c.Undec(rule, "risk", m.fn.Pos(), "running balance not recognised")
+		c.Undec(rule, "balance", m.fn.Pos(), "running balance not recognised")
 	} else {
 		f := map[string]int{}
 		m.promoNote = ""
-		m.lin(m.swap.Edges[m.entryIx], 1, f, 0)
-		got := c18LinStr(f)
+		m.lin(m.x(m.swap.Edges[m.entryIx]), 1, f, 0)
+		got, want := c18LinStr(f), "-1*PV@capture +1*PV@from +1*thr"
 		n++
 		switch {
 		case strings.Contains(got, "?"):
-			c.Undec(rule, "risk", m.swap.Pos(), "balance entering the loop has a term this rule does not understand: %s", got)
-		case got != expRisk:
-			c.Fail(rule, "risk", m.swap.Pos(), "balance entering the loop is [%s]; it must be value-at-risk minus gain = (PV[mover]+promoVal) - (PV[captured]+promoVal-threshold) = [%s]: a promoted pawn is at risk with the value of the new piece", got, expRisk)
+			c.Undec(rule, "balance", m.swap.Pos(), "balance entering the loop has a term this rule does not understand: %s", got)
+		case got != want:
+			c.Fail(rule, "balance", m.swap.Pos(), "balance entering the loop is [%s]; it must be value-at-risk minus gain = (PV[mover]+promoVal) - (PV[captured]+promoVal-threshold) = [%s]: a promoted pawn is at risk with the value of the new piece", got, want)
 		case m.promoNote != "":
-			c.Fail(rule, "risk", m.swap.Pos(), "%s", m.promoNote)
+			c.Fail(rule, "balance", m.swap.Pos(), "%s", m.promoNote)
 		default:
-			c.Ok(rule, "risk", m.swap.Pos(), "balance entering the loop is [%s] (promotion bonus cancels: it is both gained and put at risk)", got)
+			c.Ok(rule, "balance", m.swap.Pos(), "balance entering the loop is [%s] (promotion bonus cancels: it is both gained and put at risk)", got)
 		}
 	}
 	// first reply by the opponent, sides alternate
 	ok, shape := false, false
 	why := "the colour whose attackers are selected is not Flip(loop-carried colour)"
-	if call, isc := stripConv(m.stmV).(*ssa.Call); isc && objName(calleeObj(call)) == "chess.(Color).Flip" {
-		if ph, isp := stripConv(call.Call.Args[0]).(*ssa.Phi); isp && ph.Block() == m.H {
+	if inner, isFlip := c18FlipOf(m.stmE); isFlip {
+		e := m.stmE
+		if ph, isp := inner.v.(*ssa.Phi); isp && inner.op == "phi" && ph.Block() == m.H {
 			ok, shape = true, true
-			if !isFieldLoad(stripConv(ph.Edges[m.entryIx]), "Board.STM") {
+			if in := m.x(ph.Edges[m.entryIx]); in.op != "field" || in.name != "Board.STM" {
 				ok, why = false, "the loop does not start from the mover's colour b.STM, so the first reply is not the opponent's"
 			}
 			for _, i := range m.backIx {
-				if ph.Edges[i] != m.stmV {
+				if !c18Same(m.x(ph.Edges[i]), e) {
 					ok, why = false, "the side to move is not handed over after a capture"
 				}
 			}
 		}
 	}
 	n++
-	if ok {
-		c.Ok(rule, "first-reply", m.stmV.Pos(), "iteration k selects attackers of Flip^k(b.STM): opponent replies first, sides alternate")
-	} else if shape {
-		c.Fail(rule, "first-reply", m.H.Instrs[0].Pos(), "%s", why)
-	} else {
-		c.Undec(rule, "first-reply", m.H.Instrs[0].Pos(), "%s", why)
+	switch {
+	case ok:
+		c.Ok(rule, "first-reply", c18BlockPos(m.H), "iteration k selects attackers of Flip^k(b.STM): opponent replies first, sides alternate")
+	case shape:
+		c.Fail(rule, "first-reply", c18BlockPos(m.H), "%s", why)
+	default:
+		c.Undec(rule, "first-reply", c18BlockPos(m.H), "%s", why)
 	}
 	c.Floor(rule, n, 6, "entry-bookkeeping obligations")
 }
@@ -1671,28 +1953,42 @@ func (m *c18Model) r5(c *Ctx) {
 // ---------- R6: consumers ----------
 
 // c18Sign: 1 = provably <= 0, -1 = positive for some input by construction, 0 = unknown.
-func c18Sign(v ssa.Value, depth int) int {
-	v = stripConv(v)
-	if k, ok := constOf(v); ok {
-		if k <= 0 {
+func c18Sign(b *c18B, e *c18E) int {
+	if e.op == "const" {
+		if e.k <= 0 {
 			return 1
 		}
 		return -1
 	}
-	call, ok := v.(*ssa.Call)
-	if !ok || depth > 4 {
-		return 0
+	if ph, ok := e.v.(*ssa.Phi); ok && e.op == "phi" {
+		// every incoming value is <= 0: by itself, or as -Y on an edge guarded by Y > 0 / Y >= 0
+		for i, ed := range ph.Edges {
+			x := b.e(ed, nil)
+			ok := c18Sign(b, x) == 1
+			if x.op == "neg" {
+				for _, g := range b.edgeGuards(ph.Block().Preds[i], ph.Block()) {
+					cd := g.cond
+					if (cd.op == "lt" || cd.op == "le") && (cd.a[0].op == "const" && cd.a[0].k >= 0 && c18Same(cd.a[1], x.a[0]) && g.truth ||
+						cd.a[1].op == "const" && cd.a[1].k <= 0 && c18Same(cd.a[0], x.a[0]) && !g.truth) {
+						ok = true // k <(=) Y with k >= 0 holds, or Y <(=) k with k <= 0 fails: Y >= 0
+					}
+				}
+			}
+			if !ok {
+				return 0
+			}
+		}
+		return 1
 	}
-	bi, ok := call.Call.Value.(*ssa.Builtin)
-	if !ok || (bi.Name() != "min" && bi.Name() != "max") {
+	if e.op != "call" || (e.name != "builtin.min" && e.name != "builtin.max") || len(e.a) == 0 {
 		return 0
 	}
 	lo, hi := 1, -1 // weakest / strongest claim among the arguments
-	for _, a := range call.Call.Args {
-		s := c18Sign(a, depth+1)
+	for _, a := range e.a {
+		s := c18Sign(b, a)
 		lo, hi = min(lo, s), max(hi, s)
 	}
-	if bi.Name() == "min" { // min is <= 0 as soon as one argument is; positive only if all are
+	if e.name == "builtin.min" { // min is <= 0 as soon as one argument is; positive only if all are
 		return hi
 	}
 	return lo // max is <= 0 only if all arguments are; positive as soon as one is
@@ -1700,6 +1996,7 @@ func c18Sign(v ssa.Value, depth int) int {
 
 func c18R6(c *Ctx, p *Prog) {
 	const rule = "C18.R6"
+	bld := &c18B{memo: map[c18MK]*c18E{}}
 	rn := p.Func("heur.(*MoveRanker).RankNoisy")
 	if rn == nil || p.FuncObj("heur.SEE") == nil {
 		c.Anchor(rule, "heur.(*MoveRanker).RankNoisy / heur.SEE")
@@ -1707,7 +2004,11 @@ func c18R6(c *Ctx, p *Prog) {
 		calls := callsIn(rn, "heur.SEE")
 		for i, ci := range calls {
 			key := fmt.Sprintf("threshold@heur.(*MoveRanker).RankNoisy#%d", i+1)
-			switch c18Sign(ci.Common().Args[2], 0) {
+			if len(ci.Common().Args) != 3 {
+				c.Undec(rule, key, ci.Pos(), "SEE is not called with (board, move, threshold)")
+				continue
+			}
+			switch c18Sign(bld, bld.e(ci.Common().Args[2], nil)) {
 			case 1:
 				c.Ok(rule, key, ci.Pos(), "threshold passed to SEE is provably <= 0: every capture with SEE >= 0 is ranked into the good band")
 			case -1:
@@ -1730,50 +2031,40 @@ func c18R6(c *Ctx, p *Prog) {
 		if !ok {
 			return
 		}
-		bo, ok := iff.Cond.(*ssa.BinOp)
-		if !ok {
+		ce := bld.e(iff.Cond, nil)
+		if (ce.op != "lt" && ce.op != "le") || len(ce.a) != 2 {
 			return
 		}
-		isW := func(v ssa.Value) bool { return isFieldLoad(stripConv(v), "Weighted.Weight") }
-		var other ssa.Value
-		left := false
-		if isW(bo.X) {
-			other, left = bo.Y, true
-		} else if isW(bo.Y) {
-			other = bo.X
-		} else {
-			return
-		}
-		k, isc := constOf(other)
-		op := bo.Op
-		if !left {
-			op = map[token.Token]token.Token{token.LSS: token.GTR, token.GTR: token.LSS, token.LEQ: token.GEQ, token.GEQ: token.LEQ}[op]
-		}
+		isW := func(e *c18E) bool { return e.op == "field" && e.name == "Weighted.Weight" }
 		// split point s: moves with Weight < s leave through `low`, the others through the other successor
-		var s int64
+		var other *c18E
 		var low *ssa.BasicBlock
-		switch op {
-		case token.LSS:
-			s, low = k, iff.Block().Succs[0]
-		case token.LEQ:
-			s, low = k+1, iff.Block().Succs[0]
-		case token.GEQ:
-			s, low = k, iff.Block().Succs[1]
-		case token.GTR:
-			s, low = k+1, iff.Block().Succs[1]
+		adj := int64(0)
+		b := iff.Block()
+		switch {
+		case isW(ce.a[0]): // W < c / W <= c
+			other, low = ce.a[1], b.Succs[0]
+			if ce.op == "le" {
+				adj = 1
+			}
+		case isW(ce.a[1]): // c < W / c <= W
+			other, low = ce.a[0], b.Succs[1]
+			if ce.op == "lt" {
+				adj = 1
+			}
 		default:
-			return // equality tests do not split the list into bands
+			return
 		}
 		if c18ReachesMake(low) {
 			return // the low side is still searched: not a prune by weight alone
 		}
 		n++
 		key := fmt.Sprintf("qs-prune#%d", n)
-		if !isc {
+		if other.op != "const" {
 			c.Undec(rule, key, c18Pos(iff), "quiescence compares Weight with a non-constant")
 			return
 		}
-		if s <= capt {
+		if s := other.k + adj; s <= capt {
 			c.Ok(rule, key, c18Pos(iff), "quiescence splits its move list at Weight < %d <= heur.Captures (%d): no move ranked as a good capture (SEE >= threshold) falls on the pruned side", s, capt)
 		} else {
 			c.Fail(rule, key, c18Pos(iff), "quiescence splits its move list at Weight < %d, above heur.Captures (%d): captures that SEE judged good are cut together with the bad ones", s, capt)
@@ -1917,6 +2208,15 @@ func init() {
 		Mutant{Name: "C18.R5-promotion-bonus-full-piece", Prop: "C18", File: see,
 			Old: "promoVal = PieceValues[m.Promo()] - PieceValues[Pawn]", New: "promoVal = PieceValues[m.Promo()]",
 			Expect: "C18.R5/gain"},
+		Mutant{Name: "C18.R5-risk-gate-misses-equality", Prop: "C18", File: see,
+			Old: "if swap <= 0 {\n\t\treturn true", New: "if swap < 0 {\n\t\treturn true",
+			Expect: "C18.R5/risk"},
+		Mutant{Name: "C18.R5-gain-gate-gives-up-at-equality", Prop: "C18", File: see,
+			Old: "if swap < 0 {\n\t\treturn false", New: "if swap <= 0 {\n\t\treturn false",
+			Expect: "C18.R5/gain"},
+		Mutant{Name: "C18.R5-balance-without-threshold", Prop: "C18", File: see,
+			Old: "+ promoVal - swap\n", New: "+ promoVal - (swap + threshold)\n",
+			Expect: "C18.R5/"},
 		Mutant{Name: "C18.R5-mover-replies-first", Prop: "C18", File: see,
 			Old: "stm := b.STM\n", New: "stm := b.STM.Flip()\n",
 			Expect: "C18.R5/first-reply"},
